@@ -12,638 +12,333 @@ Definition show_fres (r : fres) : string :=
   end.
 Definition check (rs : list rune) : string := digest (show_fres (format_res rs)).
 Definition full (rs : list rune) : string := show_fres (format_res rs).
-Eval vm_compute in ("<<<M3750>>>" ++ check (runes_of_ascii "
-// top
-	options	// c0
-  { StringPrefixLenType
-// c2
-		= 
-// c3
-u64 	 // c4a
-	// c4b
-  ;	// c5
-    ArrayPrefixLenType	=// c7
-  u16  // c8
-;  // c9a
-    // c9b
-
-	FixedStringPadChar
-
-= 	 // c11
-  ' ' 	 // c12
-; 
-        // c13
-
-} 
-	// c14
-	packet  // c15a
-		// c15b
-	  Logon	// c16a
-// c16b
-
-{ // c17a
-  // c17b
-	i32 
-      // c18
-    msgKind ,	repeat
-InOrderid65
-
-{// c23a
-    // c23b
-u8
-
-    // c24
-    pad0 // c25a
-  // c25b
-	,	// c26
-    	}  , // c28a
-    // c28b
-
-i8 
-    // c29
-  tag7
-	,  
-  // c31
-    @leftPad 
-	    // c32
-  ( ' '  // c34a
-		// c34b
-    ) 
-        // c35
-	char[  // c36a
-	// c36b
-  12 
-// c37
-	] 
-    // c38
-    x // c39a
-// c39b
-	,}
-// c41
-
-  packet // c42a
-  // c42b
-    Leg	{	// c44a
-// c44b
-	  char[]// c45
-    	f1	// c46
-	,  // c47a
-
-	// c47b
-	repeat
-
-    // c48
-char[ // c49
-      5// c50
-      ]
-        // c51
-
-	Px // c52a
-// c52b
-
-	, // c53
-InQty34 	 // c54
-
-	{
-repeat  char[
-    // c57
-	6// c58a
-  // c58b
-	]	// c59a
-    // c59b
-
-	Qty	// c60
-  ,char[ // c62
-	7 // c63
-]  // c64
-	seqNo// c65
-    	,	string
-	    // c67
-	count 
-
-    // c68
-
-	,
-} // c70a
-
-// c70b
-	,Logon  ,// c73a
-  // c73b
-  } // c74a
-  // c74b
-packet 	 // c75
-
-Party
-
-{	@leftPad	// c78
-	( 	 // c79
-	'0'
-        // c80
-	) char[  
-  // c82
-  10 // c83
-] 
-OrderId,	// c86
-string
-    Tail 	 // c88
-
-,// c89a
-	// c89b
-    } 
+Eval vm_compute in ("<<<M1534>>>" ++ check (runes_of_ascii "// top
+options // c0
+{ // c1a
+  // c1b
+StringPrefixLenType // c2
+= // c3
+u16
+    // c4
+; ArrayPrefixLenType // c6a
+  // c6b
+= u8 // c8a
+  // c8b
+; FixedStringPadFromLeft =
+    // c11
+true // c12
+; FixedStringPadChar // c14
+= // c15a
+  // c15b
+' ' ;
+    // c17
+}
+    // c18
 packet
-	Fill  // c92a
-	// c92b
-    { 
-        // c93
-    	zchar[  // c94a
-    // c94b
-    5 	 // c95
-    ] 	 // c96a
-
-  // c96b
-		venue  // c97
-	, zchar[
-// c99
-
-  3 	 // c100
-	]	// c101
-  clOrdID 
-	    // c102
-	, // c103a
-  	// c103b
-
-  InRef95 // c104
-		{  
-      // c105
-	InLastpx25
-// c106
-
-  { // c107
-u8 pad0, // c110
-    } 	 // c111
-	  , 	 // c112
-
-float64	// c113a
-  // c113b
-
-OrderId 	 // c114a
-		// c114b
-	, 
-        // c115
-      i32// c116a
-
-// c116b
-      f1, 	 // c118
-    	float32 
-      // c119
-		x // c120
-
-,  // c121a
-    // c121b
-  char[] 
-
-    // c122
-  seqNo	// c123
-    ,} 
-    // c125
-    ,
-    // c126
-  repeat // c127a
-	// c127b
-	string 	 // c128
-    	seqNo // c129
-
-,	// c130
-	  }
-root  // c132a
-  // c132b
-
-  packet  // c133
-Heartbeat  // c134
-	{
-
-    repeat Leg
-	, 
-  // c138
-u32 seqNo// c140a
-	  // c140b
-  ,// c141
-
-	u16 	 // c142
-    tag7 // c143
-  ,	// c144
-    	u32 	 // c145a
-	// c145b
-      Flags  // c146
-  @lengthOf( // c147a
-  // c147b
-	Body// c148
-    	)	// c149
-,	// c150a
-	// c150b
-	match
-	tag7
-as	// c153a
-		// c153b
-  	Body 
-      // c154
-    { // c155
-	[ 
-
-// c156
-	195 
-    // c157
-, 75  // c159a
-// c159b
-		] 
-// c160
-	:
-	Party 
-        // c162
-	, 	 // c163a
-
-// c163b
-    171 	 // c164a
-
-// c164b
-  :// c165
-	Fill  // c166a
-	// c166b
-, // c167
-    	78 	 // c168
-  :// c169
-  	Logon	,  // c171a
-    // c171b
-  142
-	:	// c173a
-		// c173b
-	  Leg 
-    // c174
-  ,
-	}// c176
-	, 
-    // c177
-	u32 	 // c178
-    Note
-@calculatedFrom(  // c180
-""CRC32"" 	 // c181
-	)// c182a
-
-	// c182b
-  	,	// c183
-  	}
-    // c184
-")).
-Eval vm_compute in ("<<<M1339>>>" ++ check (runes_of_ascii "packet
-    body {
-repeat // c
-char[ 65535 ] float ,@calculatedFrom(
-//
-// c
-""{,}"" )i64_ f32a `tab	here`,
-    stringy @lengthOf(	options1 ) `a\` , }root // `tick` ""quote"" 'q'
-packet pack
-{len @calculatedFrom(""x y"" )
-    // trailing space 
-    `say ""hi""`,
-    match msg_type as
-    lengthOf
-    { 10 : // c
-len ,[ 007 ,
-    65535
-,65535,
-    // trailing space 
-    ""a	b""
-// packet A { u8 x, }
-// @lengthOf(
-, 3 // @lengthOf(
-,0123456789
-    , ""// no comment""
-]:
-u,[ 10,	""" ++ [233]%N ++ runes_of_ascii "t" ++ [233]%N ++ runes_of_ascii """
+    // c19
+Quote // c20a
+  // c20b
+{ int64
+    // c22
+OrderId
+    // c23
 ,
-1
-    , 7 ,10 ] // `tick` ""quote"" 'q'
-: // `tick` ""quote"" 'q'
-_x ,
-[ // a // b
-""1"" ,	""`tick`"" ,7,  ""1"" ]
-:u128 ,
-    65535 : Pad ,// packet A { u8 x, }
-}, @rightPad ( '0')
-match As as zchar
-    {[""" ++ [128512]%N ++ runes_of_ascii """, 0
-    ]: // trailing space 
-uint8x }
-, falsey
-{ float64 A@calculatedFrom(
-    // packet A { u8 x, }
-    ""{,}""
-    ) , match	As as asx {
-    // trailing space 
-    3 /// triple
-: Pad ,
-}, repeat
-    char[] len`crlf
-line`
-    , }
+    // c24
+char[] // c25
+Ref
+    // c26
+, @leftPad ( '0' // c30
+) // c31a
+  // c31b
+char[ // c32
+5 ]
+    // c34
+price // c35
+, // c36
+} // c37
+packet Heartbeat { // c40
+zchar[ // c41
+3 ] venue // c44a
+  // c44b
+, string // c46a
+  // c46b
+Flags // c47a
+  // c47b
+, // c48
+} // c49a
+  // c49b
+packet // c50
+Trade
+    // c51
+{ repeat
+    // c53
+InTag787 { // c55a
+  // c55b
+i32
+    // c56
+venue // c57
+, // c58
+char[ // c59
+5
+    // c60
+] sym // c62
 ,
-//x
-// c
-zchar , match
-Logon as
-    u // " ++ [27880; 37322]%N ++ runes_of_ascii "
-{  ""{,}""
-:
-    x_y_z
-[""packet""
-] :
-msg_type
-    , 0 // c
-: calculatedFrom , [
-    ""x y""
-, ""a\\"",
-42 ,
-    42
-,// " ++ [128512]%N ++ runes_of_ascii " emoji
-""a\""b""	,
-    /// triple
-    """ ++ [28040; 24687]%N ++ runes_of_ascii """
-,""\n"" ] : asx
-    """" :Pad , [
-    """ ++ [233]%N ++ runes_of_ascii "t" ++ [233]%N ++ runes_of_ascii """ ]
-:
-    Z9_
-// packet A { u8 x, }
-//
-} ,repeat string x_y_z ,
-repeat stringy
-{ repeat chars // a // b
-chars, u8
-    charz
-// trailing space 
-// packet A { u8 x, }
-`{ , }` , match MetaDataX as packetx { [ ""CRC32"" ]
-: metadata , // " ++ [128512]%N ++ runes_of_ascii " emoji
-[ """ ++ [128512]%N ++ runes_of_ascii """,
-""CRC32"" ,007 ,
-""x y"" , ""1""
-    // a // b
-    ,
-// a // b
-// " ++ [27880; 37322]%N ++ runes_of_ascii "
-""abc"" // trailing space 
-, 42
-] : calculatedFrom	,
-    [
-42
-    ,
-    65535 ] :
-// " ++ [128512]%N ++ runes_of_ascii " emoji
-//
-Pad
-, ""\" ++ [233]%N ++ runes_of_ascii """ : msg_type ,
-    //
-    }, }	, }
-packet msg_type{ u8x @calculatedFrom(""{,}"" ), rootA uint8x
-, //x
-f64 falsey	`a\`,
+    // c63
 repeat
-// packet A { u8 x, }
-// packet A { u8 x, }
+    // c64
+InPx98
+    // c65
+{ // c66
+char[ // c67
+11
+    // c68
+]
+    // c69
+Qty
+    // c70
+, // c71
+Heartbeat // c72a
+  // c72b
+, // c73a
+  // c73b
 char[]
-asx ,
+    // c74
+price
+    // c75
+, // c76
+u32
+    // c77
+x
+    // c78
+, float64
+    // c80
+count // c81
+,
+    // c82
+repeat Quote
+    // c84
+,
+    // c85
+} , zchar[
+    // c88
+7 ] // c90a
+  // c90b
+Note
+    // c91
+, repeat // c93a
+  // c93b
+char[ // c94a
+  // c94b
+1 ] // c96a
+  // c96b
+Tail // c97
+,
+    // c98
+}
+    // c99
+, // c100
+repeat // c101
+char[ // c102
+2 ] seqNo , // c106
+InTail55 { // c108a
+  // c108b
 repeat
-// packet A { u8 x, }
-// packet A { u8 x, }
-chars
-As `two words`,
-    int{ repeat matchKey	`u8 x,`,
-}	, match lengthOf
-as trueish {""\n"" : Foo ,""\" ++ [233]%N ++ runes_of_ascii """ :i8i8, }
-, } // c
-options { } options { f32a =
-    7 ; }
+    // c109
+Quote // c110
+, string // c112a
+  // c112b
+msgKind
+    // c113
+,
+    // c114
+InPx18 // c115a
+  // c115b
+{ // c116
+char[] count // c118
+, repeat Quote // c121
+, uint16 // c123a
+  // c123b
+Qty // c124a
+  // c124b
+, // c125a
+  // c125b
+} // c126a
+  // c126b
+, // c127
+char[ // c128a
+  // c128b
+4 // c129a
+  // c129b
+] // c130
+seqNo
+    // c131
+, // c132
+repeat // c133
+Heartbeat // c134a
+  // c134b
+, // c135a
+  // c135b
+repeat
+    // c136
+string sym // c138a
+  // c138b
+,
+    // c139
+} , // c141
+repeat // c142a
+  // c142b
+Quote , Heartbeat // c145a
+  // c145b
+,
+    // c146
+@leftPad
+    // c147
+( // c148
+' ' ) // c150a
+  // c150b
+char[ // c151
+10 ] // c153a
+  // c153b
+OrderId ,
+    // c155
+} // c156a
+  // c156b
+root
+    // c157
+packet // c158
+Fill { // c160a
+  // c160b
+Heartbeat // c161
+, uint32 // c163a
+  // c163b
+count , // c165
+u8 // c166a
+  // c166b
+OrderId
+    // c167
+, // c168
+match // c169
+OrderId as // c171a
+  // c171b
+Body // c172a
+  // c172b
+{ 96 // c174a
+  // c174b
+: Quote // c176a
+  // c176b
+,
+    // c177
+195
+    // c178
+: // c179
+Trade , // c181
+187 // c182
+: // c183
+Heartbeat , // c185a
+  // c185b
+} // c186a
+  // c186b
+,
+    // c187
+u32 venue @calculatedFrom( // c190
+""CRC32"" ) // c192
+, } // c194
 ")).
-Eval vm_compute in ("<<<M4093>>>" ++ check (runes_of_ascii "options {
-    chars = '0';
-    Pad = 42;
+Eval vm_compute in ("<<<M320>>>" ++ check (runes_of_ascii "options { lengthOf =
+""CRC32"" ; stringy = uint16;  u8x =float32 ; x_y_z
+    // c
+    =  zchar[ 007]
+repeatCount  = ""a\""b"" ;
+// c
+//	t
 }
-
-packet roots {
-    @calculatedFrom(""" ++ [28040; 24687]%N ++ runes_of_ascii """)
-    @calculatedFrom(""// no comment"")
-    chars,
-}
-
-packet body {
-    @lengthOf(x)
-    match msg_type as x_y_z {
-        0123456789 : uint8x,
-        // packet A { u8 x, }
-        ""`tick`"" : i64_,
-        // packet A { u8 x, }
-        00 : a1,
-        ""{,}"" : Header,
-        [255] : falsey,
-    },
-    @calculatedFrom(""\n"")
-    @rightPad()
-    @lengthOf(BodyLength)
-    i16 A @lengthOf(uint8x),
-    char[] Foo @lengthOf(T),
-    @leftPad('0')
-    _x {
-        Logon @lengthOf(u),
-    },
-    @leftPad('\x00')
-    char[4294967296] trueish @calculatedFrom(""x y"") `" ++ [233]%N ++ runes_of_ascii "`,
-    @rightPad(' ')
-    // packet A { u8 x, }
-    match msg_type as pack {
-        [""a\""b"", ""`tick`""] : asx,
-        ""x y"" : a1,
-        """ ++ [128512]%N ++ runes_of_ascii """ : MetaDataX,
-        42 : Foo,
-        007 : trueish,
-        /// triple
-        // @lengthOf(
-        ""it's"" : string_,
-    },
-    repeat Header `
-        `,
-    @tag(00)
-    f32 options1 @lengthOf(calculatedFrom),
-    zchar[255] Logon,
-}
-
-root packet packetx {
-    @lengthOf(calculatedFrom)
-    metadata x_y_z,
-}
-
-packet leftPad {
-    match roots as falsey {
-        ""x y"" : u,
-        ""x y"" : msg_type,
-    },
-    repeat int64 leftPad,
-    u @calculatedFrom(""x y"") `tab	here`,
-    @calculatedFrom(""packet"")
-    match matchKey as BodyLength {
-        255 : a1,
-        007 : T,
-        // `tick` ""quote"" 'q'
-        ""`tick`"" : rootA,
-        [
-            ""a\\"", 1, 255, 7, 1,
-            ""it's"", 1, 42
-        ] : x_y_z,
-        42 : i64_,
-    },
-    float64 x_y_z `doc`,
-    uint8x,
-    string float @calculatedFrom(""\n""),
-    @lengthOf(o)
-    stringy @lengthOf(rootA),
-}//x")).
-Eval vm_compute in ("<<<M1293>>>" ++ check (runes_of_ascii "  root //x
-packet Logon {
-char[	7 ]calculatedFrom @calculatedFrom(	""// no comment""	) `two words`, uint16
-MetaDataX
-`u8 x,`
-    , string a1 @lengthOf( Logon ) // " ++ [27880; 37322]%N ++ runes_of_ascii "
-,
-    @tag( 0 ) // " ++ [128512]%N ++ runes_of_ascii " emoji
-@lengthOf( u8x) @calculatedFrom(
-    ""it's"" ) string
-zchar `doc` , @lengthOf(x_y_z)// trailing space 
-trueish
+MetaData trueish { As roots `" ++ [28040; 24687; 31867; 22411]%N ++ runes_of_ascii "`
+, char[ 00 ] Packet// c
+, } root
+packet roots
+{ int8 Logon, body@lengthOf( lengthOf
+) `
+` , @rightPad (	'0' )
+    Packet@calculatedFrom(""x y""
+)`a\` ,
+@lengthOf( T ) match matchKey as _x// trailing space 
+{ """ ++ [128512]%N ++ runes_of_ascii """	:
+stringy ,
+4294967296:  x_y_z ,""\n""
+: leftPad[
+42 , 42
+    , ""it's"" , ""\n"" ,""// no comment""	] : asx ,} , char[
+    10// trailing space 
+]BodyLength ,
+@leftPad (	'0'
+) char[]
+    /// triple
+    Z9_ `crlf
+line`, string falsey
+    , int16 // c
+asx  @calculatedFrom( ""x y"" ) ,u128 Z9_ `it's` ,
+    @rightPad
+// " ++ [128512]%N ++ runes_of_ascii " emoji
 // @lengthOf(
-// `tick` ""quote"" 'q'
-{ Z9_ { match
-float
-as/// triple
-lengthOf{00: _x, } ,repeat x_y_z {u8x // " ++ [128512]%N ++ runes_of_ascii " emoji
-uint8x ,	}
-,char[007
-] x_y_z , } , Z9_
-`" ++ [28040; 24687; 31867; 22411]%N ++ runes_of_ascii "` ,
-}
+( '0'
+)Packet {
+    // " ++ [128512]%N ++ runes_of_ascii " emoji
+    int64
+    float ,
+repeat leftPad{
+repeat
+Z9_ {
+    match T
+as lengthOf{ ""`tick`"" :msg_type""1"" : x_y_z , 0 : chars , } ,
+    } , repeat trueish
+    { zchar[
+255 ]
+crc	`doc` , char Logon @lengthOf( _x
+    // " ++ [128512]%N ++ runes_of_ascii " emoji
+    )
 ,
-f32a {
-repeat	zchar[0123456789 ]A, repeat i64
-stringy , leftPad `crlf
-line` ,
-    },
-}packet u128//x
-{  match _x as MetaDataX{ [ ""x y"" , 42  ] : A , }
-, @lengthOf( charz) charz { match x_y_z as // " ++ [27880; 37322]%N ++ runes_of_ascii "
-f32a { [ 007
-, 10
-    ,
-    42
-    , """ ++ [233]%N ++ runes_of_ascii "t" ++ [233]%N ++ runes_of_ascii """ , 0123456789 ] :x_y_z ,// @lengthOf(
-7: u128 , ""// no comment""
-: repeatCount  ,
-    ""a\\"" : int	,""x y"" :u128 } , },i16 chars
-// @lengthOf(
+    //
+    a1 `doc`,
+//x
+//	t
+} , match msg_type as zchar { ""it's"" // c
+:
+/// triple
 // packet A { u8 x, }
-@lengthOf( zchar)
-    //	t
-    `u8 x,` , }
-    packet u
-// " ++ [27880; 37322]%N ++ runes_of_ascii "
-// @lengthOf(
-{ repeat u options1 , /// triple
-@calculatedFrom( ""CRC32"" )float32 u128@lengthOf( //x
-u8x )
-`{ , }`,
-@leftPad ('\x00'
-)
-    i8 crc`say ""hi""`
-, } packet
-calculatedFrom {
-}
-packet pack {
-zchar[ 65535 ] calculatedFrom , len { stringy @lengthOf(
 body
-)	, }, @lengthOf( x_y_z// " ++ [128512]%N ++ runes_of_ascii " emoji
-) uint8x
-@lengthOf( tag ) , @calculatedFrom(
-""x y"") zchar[ 65535 ]	tag	@calculatedFrom(
-    ""a\\"") `" ++ [28040; 24687; 31867; 22411]%N ++ runes_of_ascii "` ,
-i64
-uint8x
-    ,  @lengthOf(
-    int ) u8 Pad@lengthOf(  o
-    )  `{ , }`
-    ,  }
-")).
-Eval vm_compute in ("<<<M1393>>>" ++ check (runes_of_ascii "options {
-    StringPrefixLenType = u16;
-    ArrayPrefixLenType = u16;
+, """ ++ [28040; 24687]%N ++ runes_of_ascii """ : // `tick` ""quote"" 'q'
+u,} ,} , } ,
 }
-
-packet SampleBinary {
-    uint16 MsgType `" ++ [28040; 24687; 31867; 22411]%N ++ runes_of_ascii "`,
-    u16 BodyLenght @lengthOf(Body) `" ++ [28040; 24687; 20307; 38271; 24230]%N ++ runes_of_ascii "`,
-    match MsgType as Body {
-        1 : Logon,
-        2 : Logout,
-        3 : Heartbeat,
-        4 : RiskControlRequest,
-        5 : RiskControlResponse,
-    },
-    @calculatedFrom(""CRC32"")
-    u32 Ckecksum `" ++ [26657; 39564; 21644]%N ++ runes_of_ascii "`,
-}
-
-packet Logon {
-    @leftPad('0')
-    char[10] UserName `" ++ [29992; 25143; 21517]%N ++ runes_of_ascii "`,
-    string Password `" ++ [23494; 30721]%N ++ runes_of_ascii "`,
-    uint64 ClientId `" ++ [23458; 25143; 31471]%N ++ runes_of_ascii "ID`,
-    u16 HeartbeatInterval `" ++ [24515; 36339; 38388; 38548]%N ++ runes_of_ascii "`,
-}
-
-packet Logout {
-    @rightPad('0')
-    char[10] UserName `" ++ [29992; 25143; 21517]%N ++ runes_of_ascii "`,
-    uint64 ClientId `" ++ [23458; 25143; 31471]%N ++ runes_of_ascii "ID`,
-}
-
-packet Heartbeat {
-}
-
-packet RiskControlRequest {
-    string UniqueOrderId `" ++ [21807; 19968; 35746; 21333; 21495]%N ++ runes_of_ascii "`,
-    char[16] ClOrdID `" ++ [23458; 25143; 35746; 21333; 21495]%N ++ runes_of_ascii "`,
-    char[3] MarketID `" ++ [24066; 22330]%N ++ runes_of_ascii "id`,
-    char[12] SecurityID `" ++ [35777; 21048; 20195; 30721]%N ++ runes_of_ascii "`,
-    char Side `" ++ [20080; 21334; 26041; 21521]%N ++ runes_of_ascii "`,
-    char OrderType `" ++ [35746; 21333; 31867; 22411]%N ++ runes_of_ascii "`,
-    u64 Price `" ++ [20215; 26684]%N ++ runes_of_ascii "`,
-    u32 Qty `" ++ [25968; 37327]%N ++ runes_of_ascii "`,
-    repeat string ExtraInfo `" ++ [38468; 21152; 20449; 24687]%N ++ runes_of_ascii "`,
-    repeat SubOrder {
-        char[16] ClOrdID `" ++ [23376; 35746; 21333; 21495]%N ++ runes_of_ascii "`,
-        u64 Price `" ++ [23376; 35746; 21333; 20215; 26684]%N ++ runes_of_ascii "`,
-        u32 Qty `" ++ [23376; 35746; 21333; 25968; 37327]%N ++ runes_of_ascii "`,
-    },
-}
-
-packet RiskControlResponse {
-    string UniqueOrderId `" ++ [21807; 19968; 35746; 21333; 21495]%N ++ runes_of_ascii "`,
-    i32 Status `" ++ [29366; 24577]%N ++ runes_of_ascii "`,
-    string Msg `" ++ [32467; 26524; 20449; 24687]%N ++ runes_of_ascii "`,
-    repeat Detail,
-}
-
-packet Detail {
-    string RuleName `" ++ [35268; 21017; 21517; 31216]%N ++ runes_of_ascii "`,
-    u16 Code `" ++ [21407; 22240; 20195; 30721]%N ++ runes_of_ascii "`,
-}")).
+packet// `tick` ""quote"" 'q'
+As// " ++ [27880; 37322]%N ++ runes_of_ascii "
+{
+@leftPad (
+    // c
+    '\x00' ) @tag( 255
+    )
+    @lengthOf( // `tick` ""quote"" 'q'
+o
+)zchar[ 42 ] string_ @calculatedFrom(
+""a\""b""	)`" ++ [28040; 24687; 31867; 22411]%N ++ runes_of_ascii "`
+, char[] repeatCount//	t
+@lengthOf(
+calculatedFrom) ,metadata @calculatedFrom(
+    ""abc""
+) `two words`
+    ,
+// `tick` ""quote"" 'q'
+// c
+@lengthOf(matchKey ) match
+packetx as falsey { 007
+: A,""1"" : packetx , //
+7 :charz
+, [ 65535 ]:stringy 65535
+    :a1 [  ""a	b""
+, 1] :
+    Logon
+// a // b
+// " ++ [128512]%N ++ runes_of_ascii " emoji
+}, }")).
 Eval vm_compute in ("<<<M291>>>" ++ check (runes_of_ascii "//	t
 root
 packet
@@ -712,930 +407,298 @@ crc	{a1 `" ++ [233]%N ++ runes_of_ascii "` , } ,@tag(
 , }
     packet roots{u64 i64_ ``,
     }")).
-Eval vm_compute in ("<<<M479>>>" ++ check (runes_of_ascii "  MetaData tag { lengthOf
-Z9_	, } // `tick` ""quote"" 'q'
-packet body { @lengthOf( uint8x
-    )
-zchar[00
-// packet A { u8 x, }
-//	t
-] metadata@lengthOf(
-lengthOf)
-    , @rightPad ( ) u @lengthOf(	asx )  `{ , }`, roots // `tick` ""quote"" 'q'
-{ Foo{
-    packetx
-    ,
-}, match
-pack as stringy
-    { 65535 : Logon  , """ ++ [233]%N ++ runes_of_ascii "t" ++ [233]%N ++ runes_of_ascii """ :
-x_y_z [ """"
-    ]
-    :	metadata
-[ 65535 // a // b
-, ""it's""	,
-    00 ,// packet A { u8 x, }
-""{,}"", ""`tick`"" ,4294967296 , 42, 0 ] // " ++ [27880; 37322]%N ++ runes_of_ascii "
-:o ""it's"" : // c
-leftPad , } ,
-repeat string calculatedFrom ,u64 options1 ,
-    }  ,@lengthOf(
-// `tick` ""quote"" 'q'
-// @lengthOf(
-repeatCount )	@tag( 65535
-    // trailing space 
-    )
-@calculatedFrom( ""`tick`"" //
-) zchar @lengthOf(crc)
-`
-`
-    // @lengthOf(
-    , x_y_z ,
-} packet lengthOf // c
-{ @leftPad ( '0'
-)@lengthOf( uint8x
-) @leftPad
-//x
-/// triple
-( ' '	) Foo @calculatedFrom(
-""a\""b"") , zchar[
-7 ] Z9_
-    ,  } packet	crc{ @calculatedFrom( ""{,}""  ) @tag( 3	) @lengthOf(
-// packet A { u8 x, }
-// c
-int
-)
-    crc charz
-, } options { int
-=
-    '0' ; Packet =
-""" ++ [128512]%N ++ runes_of_ascii """ Packet
-= ""`tick`"" ;float = char[
-    10 ] ; // " ++ [27880; 37322]%N ++ runes_of_ascii "
-msg_type
-    = char[ 00
-    ]}
-")).
-Eval vm_compute in ("<<<M756>>>" ++ check (runes_of_ascii "packet BodyLength{
-//
-// " ++ [27880; 37322]%N ++ runes_of_ascii "
-char[ 1
-    ]
-    packetx ,// " ++ [27880; 37322]%N ++ runes_of_ascii "
-} MetaData	Logon{	msg_type
-    chars`crlf
-line`
-/// triple
-//x
-, u64  msg_type ,	} options
-{ // trailing space 
-A =
-    // trailing space 
-    007 x
-= // `tick` ""quote"" 'q'
-0 ;i8i8
-= true T =char}packet tag {  int64 Foo@calculatedFrom( ""it's""
-    // packet A { u8 x, }
-    ) ,	f32  Pad , packetx @lengthOf( msg_type
-)
-, @calculatedFrom( ""`tick`"" ) zchar[255
-    ]
-float
-    `" ++ [28040; 24687; 31867; 22411]%N ++ runes_of_ascii "`
-, } packet trueish {  repeat pack// `tick` ""quote"" 'q'
-roots , @leftPad
-    ( '\x00' ) repeat u64
-A , MetaDataX string_
-    `
-`, float
-    @calculatedFrom( ""// no comment"" ) ,@lengthOf(
-i8i8 ) a1
-{
-int64 body@lengthOf(
-leftPad ) ,
-match charz as u128 {1 :MetaDataX	,  }
-    , match
-//
-//	t
-crc as
-i64_{ ""abc""
-: calculatedFrom ,
-3 :
-    //
-    body,
-    ""\n""// a // b
-: uint8x ,
-[  42, 10 ,
-    255 , ""packet""
-,""" ++ [233]%N ++ runes_of_ascii "t" ++ [233]%N ++ runes_of_ascii """]
-: u8x , } ,
-    string x, } , falsey
-,@calculatedFrom( ""packet"" )  match
-falsey as u8x
-{
-4294967296: Z9_ , """ ++ [233]%N ++ runes_of_ascii "t" ++ [233]%N ++ runes_of_ascii """:
-int
-,
-} , match roots as matchKey  { [
-1]	:
-    trueish },
-} 	 ")).
-Eval vm_compute in ("<<<M1226>>>" ++ check (runes_of_ascii "root packet u128 {
-@lengthOf(
-// `tick` ""quote"" 'q'
-//x
-T) repeat Header
-    , @tag(
-    255) @tag(
-    //x
-    255 ) //x
-u64
-    crc
-    , @tag( 65535
-) @lengthOf( u128
-)uint32 chars ,	} packet
-i64_	{ i8 string_ @calculatedFrom(	""it's"" ) , @leftPad
-( ' '
-//	t
-// " ++ [27880; 37322]%N ++ runes_of_ascii "
-) repeat //x
-Pad
-{ repeat MetaDataX {
-o packetx , roots Header ,
-match falsey as
-    roots {007  :msg_type ,[ 10	] :	T"""" // c
-:Packet,	42
-:msg_type ,
-    }
-, string
-    string_`tab	here`
-    , } ,
-repeat  float64  repeatCount`doc` // packet A { u8 x, }
-, // @lengthOf(
-}
-,match falsey as u8x
-    { ""\" ++ [233]%N ++ runes_of_ascii """ : metadata 0 :repeatCount
-    ,
-    0123456789
-:repeatCount , ""packet"": Foo
-// @lengthOf(
-// @lengthOf(
-, 0123456789
-: tag ,
-    },
-@lengthOf(
-As )
-match A	as // " ++ [128512]%N ++ runes_of_ascii " emoji
-repeatCount{
-    42  : a1
-    ,65535
-    :
-Packet , 7 :	len """" : rootA """ ++ [233]%N ++ runes_of_ascii "t" ++ [233]%N ++ runes_of_ascii """ : rootA},
-    @calculatedFrom( ""CRC32"" )
-    repeatCount @calculatedFrom( ""`tick`"" )	,
-f32 crc `doc` ,
-crc  ,
-// c
-// packet A { u8 x, }
-char[] Header
-,
-} 	 ")).
-Eval vm_compute in ("<<<M3837>>>" ++ check (runes_of_ascii "root packet string_ {
-    @lengthOf(matchKey)
-    repeat string_ matchKey,
-    char[007] i64_ @calculatedFrom(""packet""),
-    @tag(255)
-    stringy len,
-    @leftPad('\x00')
-    i8 matchKey,
-    match options1 as As {
-        0123456789 : x,
-        10 : u8x,
-        [4294967296] : rootA,
-        65535 : charz,
-        3 : int,
-    },
-}
-
-root packet u8x {
-    int16 x_y_z,// trailing space 
-    @calculatedFrom(""abc"")
-    @leftPad(' ')
-    @tag(3)
-    match Packet as leftPad {
-        ""// no comment"" : float,
-    },
-    repeat string_ Packet,
-    string zchar,
-    /// triple
-    Packet `
-    `,
-    float {
-        int8 rootA @lengthOf(x_y_z),
-        // " ++ [128512]%N ++ runes_of_ascii " emoji
-    },
-    Header @lengthOf(stringy),
-    // @lengthOf(
-    string Logon @calculatedFrom(""// no comment""),
-}
-
-MetaData options1 {
-    Foo stringy `" ++ [28040; 24687; 31867; 22411]%N ++ runes_of_ascii "`,
-    Packet i64_ `a\`,
-    char[4294967296] lengthOf,
-    char[] _x,
-    i64 Packet,
-    zchar[255] x,
-}")).
-Eval vm_compute in ("<<<M3652>>>" ++ check (runes_of_ascii "options {
-    LittleEndian = false;
-    FixedStringPadFromLeft = false;
-    FixedStringPadChar = ' ';
-}
-packet Fill {
-    uint16 Qty,
-    uint64 clOrdID,
-    repeat i64 Flags,
-}
-packet Ack {
-    zchar[7] clOrdID,
-    u64 lastPx,
-    char[] Note,
-    repeat Fill,
-    int32 count,
-}
-packet Quote {
-    u8 venue,
-    InRef40 {
-        char[] Qty,
-    },
-    zchar[5] Flags,
-    @rightPad('\x00') char[12] msgKind,
-}
-packet Logout {
-    InSym79 {
-        int32 Qty,
-        Fill,
-        char[3] x,
-        repeat InNote29 {
-            i16 price,
-            Ack,
-            f64 x,
-            zchar[8] count,
-        },
-    },
-}
-root packet Logon {
-    zchar[1] sym,
-    u32 count,
-    u16 tag7 @lengthOf(Body),
-    match count as Body {
-        [122, 152] : Ack,
-        118 : Logout,
-        61 : Quote,
-        161 : Fill,
-    },
-    u32 Acct @calculatedFrom(""CR\
-C32""),
-}
-")).
-Eval vm_compute in ("<<<M656>>>" ++ check (runes_of_ascii "MetaData
-    //
-    body
-    {u16 roots `say ""hi""` , char[ 65535]
-o
-,
-    uint32 Z9_
-, char trueish `crlf
-line`
-, }
-packet crc // packet A { u8 x, }
-{
-    u128 ,
-repeat char[]trueish ,	string	asx  @lengthOf( zchar) // c
-`crlf
-line` , int
-{ int
-    u//
-,
-}
-,  @tag(10 )
-    // @lengthOf(
-    zchar[
-//x
-//x
-65535 ] /// triple
-zchar@calculatedFrom( """ ++ [28040; 24687]%N ++ runes_of_ascii """ ) `a\`
-    ,@rightPad ('\x00' ) string crc@lengthOf(
-    // trailing space 
-    o )
-    ,match
-rootA as len
-    {[ 10  , 3// " ++ [27880; 37322]%N ++ runes_of_ascii "
-, ""\n"" , """ ++ [233]%N ++ runes_of_ascii "t" ++ [233]%N ++ runes_of_ascii """
-,
-    ""packet""  ] :
-    // a // b
-    leftPad , 65535:
-pack } , zchar[ 65535 ]
-    //x
-    asx `u8 x,`
-    // a // b
-    , i16
-// @lengthOf(
-// " ++ [27880; 37322]%N ++ runes_of_ascii "
-roots`u8 x,` ,
-// " ++ [128512]%N ++ runes_of_ascii " emoji
-//
-@leftPad ( )	f64 Packet
-    ,
-    } packet tag
-    { @rightPad //
-( '0' )repeat char[00 ] crc	,
-    } packet stringy	{ char[] roots`" ++ [233]%N ++ runes_of_ascii "` //	t
-,
-    }")).
-Eval vm_compute in ("<<<M1151>>>" ++ check (runes_of_ascii "
-packet
-    int{ repeat  o
-    `say ""hi""` ,
-    // " ++ [128512]%N ++ runes_of_ascii " emoji
-    @leftPad ( '\x00' )T
-    `// not a comment`,
-@tag(
-    007 // trailing space 
-) repeat uint8x { zchar[	7 ] a1 ,char[] msg_type @lengthOf( calculatedFrom
-)
-`two words`
-,
-string_	A // packet A { u8 x, }
-,
-// " ++ [128512]%N ++ runes_of_ascii " emoji
-// " ++ [27880; 37322]%N ++ runes_of_ascii "
-} , repeat// " ++ [27880; 37322]%N ++ runes_of_ascii "
-char falsey
-, repeat /// triple
-zchar[
-    0123456789 ] repeatCount ,match trueish as As{
-[// " ++ [128512]%N ++ runes_of_ascii " emoji
-""a\\"", """ ++ [233]%N ++ runes_of_ascii "t" ++ [233]%N ++ runes_of_ascii """
-    ,  """ ++ [28040; 24687]%N ++ runes_of_ascii """ ,
-    // trailing space 
-    7 , """ ++ [233]%N ++ runes_of_ascii "t" ++ [233]%N ++ runes_of_ascii """, """ ++ [28040; 24687]%N ++ runes_of_ascii """ ] :
-    int ,0123456789 :
-A ,
-[00 , """ ++ [128512]%N ++ runes_of_ascii """
-    ] :  Header
-, // packet A { u8 x, }
-""a\\"" : u, } , } packet
-// c
-// @lengthOf(
-body
-    {
-    float32 Header `doc` ,roots // `tick` ""quote"" 'q'
-@calculatedFrom( """" )
-,
-int32 metadata ,// `tick` ""quote"" 'q'
-}
-options
-    { repeatCount =
-    ""abc"" ; } 	 ")).
-Eval vm_compute in ("<<<M54>>>" ++ check (runes_of_ascii "root packet calculatedFrom
-{ /// triple
-@calculatedFrom( // packet A { u8 x, }
-""{,}"" ) match asx
-as i8i8 { ""CRC32"" :f32a	,
-    ""// no comment""	:Packet
-    ,// trailing space 
-}
-,
-    repeat zchar[ 7 ] len , //
-match	options1// c
-as string_	{""" ++ [128512]%N ++ runes_of_ascii """ : metadata ,	[""\n""
-// `tick` ""quote"" 'q'
-//
-,
-    ""CRC32"" , ""a\""b""]
-:
-// " ++ [128512]%N ++ runes_of_ascii " emoji
-// " ++ [128512]%N ++ runes_of_ascii " emoji
-x_y_z // " ++ [27880; 37322]%N ++ runes_of_ascii "
-, 42
-: string_	},@lengthOf(
-msg_type) string Pad
-// trailing space 
-// @lengthOf(
-`tab	here` ,
-f32a
-, match  Logon as stringy { 007
-    :
-    metadata	, [ 255 , 10 ] : matchKey, [
-10 ,""1"",	""`tick`"" , 0]:roots , 255
-// @lengthOf(
-// c
-: o,	[ 1 ]
-: msg_type  , 0123456789
-: falsey	} , } root packet
-crc { }
-    options
-    { falsey =
-false ;len =
-""\" ++ [233]%N ++ runes_of_ascii """// " ++ [27880; 37322]%N ++ runes_of_ascii "
-;A
-=
-""a	b""	lengthOf	= ""1""}
-")).
-Eval vm_compute in ("<<<M3969>>>" ++ check (runes_of_ascii "options {
-
-    o	/// triple
-	  =	'0'  ;} packet 	 // @lengthOf(
-u128{ 
-// @lengthOf(
-	// `tick` ""quote"" 'q'
-		@calculatedFrom( ""{,}"" )
-uint16
-pack
-    @calculatedFrom(  """ ++ [233]%N ++ runes_of_ascii "t" ++ [233]%N ++ runes_of_ascii """	)
-
-,	}
-	packet	A
-
-    { //x
-  u8
-
-    chars
-
-    @lengthOf(
-BodyLength) 
-,
-
-lengthOf @calculatedFrom( //x
-	""// no comment""
-
-    )
-	, x_y_z{
-string Pad `" ++ [233]%N ++ runes_of_ascii "`, 
-  // " ++ [27880; 37322]%N ++ runes_of_ascii "
-len  { zchar[ 0123456789
-]	T
-
-    ,
-
-match	// a // b
-u128
-
-    as
-metadata	{
-
-3 
-:  u128
-	,
-
-    ""\n""
-:
-	x[ """ ++ [233]%N ++ runes_of_ascii "t" ++ [233]%N ++ runes_of_ascii """,
-
-    //
-  	// " ++ [27880; 37322]%N ++ runes_of_ascii "
-		""packet""
-	] :  // @lengthOf(
-  	tag  10 :  options1 ,
-
-    ""abc""
-
-    : // trailing space 
-u ,
-    }
-, }
-
-    ,
-tag @calculatedFrom(
-	    // packet A { u8 x, }
-  """"
-
-)  `it's`  ,  }  ,
-
-}// " ++ [27880; 37322]%N ++ runes_of_ascii "
-")).
-Eval vm_compute in ("<<<M1194>>>" ++ check (runes_of_ascii "packet asx
-{// c
-@calculatedFrom(
-""\" ++ [233]%N ++ runes_of_ascii """ )
-crc
-    { int8 zchar @calculatedFrom(""" ++ [128512]%N ++ runes_of_ascii """ )
-,
-    } // trailing space 
-, roots@lengthOf( // a // b
-metadata )`` ,
-@calculatedFrom(
-""1"" //
-)@lengthOf(
-    matchKey) //	t
-@calculatedFrom( """ ++ [233]%N ++ runes_of_ascii "t" ++ [233]%N ++ runes_of_ascii """ )
-    // packet A { u8 x, }
-    u Header	, u128 ,	match _x as
-    msg_type{ 1 :
-    BodyLength	,42
-    : packetx	, //	t
-[ ""{,}"" ] :// c
-chars , //
-[ ""`tick`"" ,	0 ,
-    """ ++ [233]%N ++ runes_of_ascii "t" ++ [233]%N ++ runes_of_ascii """ ,
-// a // b
-// " ++ [27880; 37322]%N ++ runes_of_ascii "
-65535
-//
-// trailing space 
-, ""packet"", ""{,}"" ] : chars ,	3
-/// triple
-// @lengthOf(
-: packetx ,	7
-//
-// packet A { u8 x, }
-:crc , } , @lengthOf(
-    len )repeatCount { zchar[ 65535
-    ] x_y_z
-,	} , f32a
-    @lengthOf( body  )
-    ,  } //x")).
-Eval vm_compute in ("<<<M3903>>>" ++ check (runes_of_ascii "root 	 //	t
-    packet  BodyLength{
-
-zchar[
-
-10 ]
-    u128,
-
-uint8
-
-zchar``	,repeat  falsey ,
-	float64
-
-    chars
-
-@calculatedFrom(	""" ++ [128512]%N ++ runes_of_ascii """
-) , char[] 
-matchKey ,
-repeat  //x
-
-uint16
-matchKey 
-, @calculatedFrom(
-    ""CRC32""
-	)
-
-    char[ 3
-]
-u
-`" ++ [28040; 24687; 31867; 22411]%N ++ runes_of_ascii "` ,
-@leftPad(
-'0' 
-	//	t
-    	)  u64
-
-charz @calculatedFrom(
-""" ++ [128512]%N ++ runes_of_ascii """
-    )
-,
-
-    }
-    root
-
-    packet chars//
-{} MetaData
-    Z9_
-
-{
-
-    zchar[255 
-] 
-_x, int32
-f32a
-
-,
-int8 asx
-`` 
-,
-
-o packetx // `tick` ""quote"" 'q'
-,	}
-options
-
-    // trailing space 
-	  // c
-  { 
-A =
-4294967296  
-      //
-  // packet A { u8 x, }
-	; Foo 
-=
-""x y"" ;	Foo
-
-    =
-
-' ' }  //	t")).
-Eval vm_compute in ("<<<M4348>>>" ++ check (runes_of_ascii "packet 
-  // packet A { u8 x, }
-// " ++ [27880; 37322]%N ++ runes_of_ascii "
-matchKey {  }
-    packet
-    string_	{	matchKey
-
-@lengthOf(
-asx) 
-, 
-@rightPad (
-' '  )	metadata, 
-    // a // b
-	  // @lengthOf(
-  o  //
-  chars
-    , uint16	tag	`u8 x,` , repeat
-	float32
-	Logon
-
-    `two words` ,  /// triple
-	  matchKey @calculatedFrom(
-""a	b"" ) `doc`, repeat
-packetx
-	a1	, 
-}	MetaData
-
-Packet //
-  {
-    char[]  pack 
-,string	zchar ,zchar[
-
-//	t
-    	// trailing space 
-    1  ]
-x_y_z ,
-	int64 charz`say ""hi""`
-
-,u32
-lengthOf
-	`doc` 
-,
-}	options
-    { 
-a1 =	int16;
-    crc
-	=
-
-    ' '
-    ; tag
-	=char[ 42 ]	leftPad 
-=
-
-true  ;}
-
-")).
-Eval vm_compute in ("<<<M3643>>>" ++ check (runes_of_ascii "options {
-    LittleEndian = false;
+Eval vm_compute in ("<<<M1530>>>" ++ check (runes_of_ascii "options {
+    LittleEndian = true;
+    StringPrefixLenType = u16;
     ArrayPrefixLenType = u8;
     FixedStringPadChar = '0';
 }
-packet Order {
-    InNote94 {
-        f32 f1,
-        f64 Side2,
-        repeat InTail47 {
-            char[] seqNo,
-            char[] Tail,
-            char[] lastPx,
-        },
-    },
-    zchar[7] f1,
-    u8 Side2,
-}
-root packet Reject {
-    repeat char[4] Flags,
-    InPrice63 {
-        InSeqno41 {
-            repeat i8 OrderId,
-            repeat i32 clOrdID,
-            char[9] tag7,
-            char[] lastPx,
-        },
-        Order,
-        uint8 Side2,
-    },
-}
-")).
-Eval vm_compute in ("<<<M4301>>>" ++ check (runes_of_ascii "options {
-    msg_type = 65535;
-    a1 = """ ++ [128512]%N ++ runes_of_ascii """;
-    Foo = ""\" ++ [233]%N ++ runes_of_ascii """
-    matchKey = '0';
-    chars = """ ++ [28040; 24687]%N ++ runes_of_ascii """
-    //	t
-}
-
-packet lengthOf {
-    // c
-    //x
-}
-
-MetaData body {
-    A len `" ++ [28040; 24687; 31867; 22411]%N ++ runes_of_ascii "`,
-}
-
-packet o {
-    @rightPad('\x00')
-    int roots,
-    repeat u8x `tab	here`,
-    i32 x_y_z @lengthOf(Logon) `line1
-        line2`,
-    _x Z9_,
-    @lengthOf(zchar)
-    i32 msg_type `doc`,
-    @rightPad(' ')
-    i8 options1,
-    @lengthOf(packetx)
-    charz @lengthOf(o),
-    @rightPad(' ')
-    match packetx as leftPad {
-        [""{,}"", """ ++ [128512]%N ++ runes_of_ascii """] : charz,
-    },
-}")).
-Eval vm_compute in ("<<<M1360>>>" ++ check (runes_of_ascii "
-options { packetx = '\x00' o =
-    // `tick` ""quote"" 'q'
-    ""abc"" lengthOf // @lengthOf(
-=
-    255 zchar
-    =""" ++ [128512]%N ++ runes_of_ascii """
-Pad// packet A { u8 x, }
-= string
-;
-}
-root packet
-options1//x
-{ calculatedFrom
-    o  ,
-    x
-    @lengthOf( leftPad // " ++ [128512]%N ++ runes_of_ascii " emoji
-)
-    , match
-    _x as
-stringy { 3
-: i8i8 ,
-} ,
-    string T , }	root packet
-uint8x
-{ len
-/// triple
-// a // b
-``,} packet matchKey {match calculatedFrom
-as
-    // " ++ [27880; 37322]%N ++ runes_of_ascii "
-    Packet { [ """ ++ [28040; 24687]%N ++ runes_of_ascii """ , ""packet""//
-]:// packet A { u8 x, }
-rootA ,}	,	}options {
-    uint8x = false ; }
-")).
-Eval vm_compute in ("<<<M1191>>>" ++ check (runes_of_ascii "packet
-    // @lengthOf(
-    T { char[ 007 ] leftPad
-@calculatedFrom( ""`tick`"" ) `{ , }`, f32 int , @calculatedFrom( """ ++ [233]%N ++ runes_of_ascii "t" ++ [233]%N ++ runes_of_ascii """	)
-int // a // b
-{int16	Packet ,  char[ 255
-]
-    Logon , char[ 0123456789] T /// triple
-@lengthOf( i64_
-) , i8
-    // packet A { u8 x, }
-    crc `tab	here`,
-    }
-, char[ 0 ] string_	, int8 msg_type `" ++ [28040; 24687; 31867; 22411]%N ++ runes_of_ascii "` // `tick` ""quote"" 'q'
-, int64 u// a // b
-`tab	here`
-,
-repeat
-u128  ,
-float64
-i64_ @calculatedFrom( """ ++ [28040; 24687]%N ++ runes_of_ascii """ )
-    , //
-@lengthOf( crc ) Header chars , float32	x, }
-")).
-Eval vm_compute in ("<<<M3629>>>" ++ check (runes_of_ascii "options {
-    StringPrefixLenType = u8;
-    ArrayPrefixLenType = u32;
-}
-packet Quote {
-    u32 Ref,
-    InNote74 {
-        u8 pad0,
-    },
-}
-packet Ack {
-    repeat string OrderId,
-}
 packet Logout {
-    zchar[7] venue,
-    char[12] Px,
-    string count,
-    char[] Tail,
-    char[] Qty,
-    Quote,
+    repeat i16 f1,
+    string Ref,
+    @rightPad('\x00') char[9] Tail,
+    repeat char[6] Flags,
+    repeat char[3] Acct,
 }
-root packet Trade {
-    zchar[2] price,
-    u32 x,
-    u32 lastPx @lengthOf(Body),
-    match x as Body {
-        148 : Ack,
-        171 : Quote,
-        15 : Logout,
+packet Party {
+    char[2] f1,
+    u8 Side2,
+    @leftPad(' ') char[1] venue,
+}
+packet Order {
+    repeat i64 Ref,
+    InPx62 {
+        i32 OrderId,
     },
+    InNote53 {
+        InClordid80 {
+            char[] Acct,
+            u32 Px,
+            repeat Party,
+        },
+        InPrice12 {
+            u8 pad0,
+        },
+        repeat Logout,
+        InFlags23 {
+            repeat string seqNo,
+            string sym,
+            int8 Flags,
+            zchar[5] lastPx,
+            zchar[6] Px,
+        },
+        char[10] Acct,
+        InPx18 {
+            zchar[2] count,
+            Party,
+        },
+    },
+    char[5] Side2,
+    char[1] Acct,
+}
+root packet Ack {
+    u32 Tail,
+    repeat char[4] msgKind,
+    repeat Logout,
 }
 ")).
-Eval vm_compute in ("<<<M612>>>" ++ check (runes_of_ascii "root
-//	t
-// @lengthOf(
-packet int //x
-{ @rightPad ( '0' ) match Packet as x_y_z
-{ 3 //	t
-:zchar // a // b
-, ""1""
-:
-x //
-, 42 : a1	, [ """ ++ [233]%N ++ runes_of_ascii "t" ++ [233]%N ++ runes_of_ascii """ ]:	matchKey
-    ,42: x_y_z
-[ ""a\""b"",
-    7	, // packet A { u8 x, }
-""it's"" ,
-    // c
-    007	, ""a\""b"" ] :
-    Foo
-    ,
-    },} // c
-MetaData Foo { u32 chars//	t
-`it's` //
-,u32
-    falsey
-, Header
-trueish
-,
-    tag As, } options { asx=u16
-    ; }
-packet
-    options1
-{repeat char[255  ] charz , }options { }")).
-Eval vm_compute in ("<<<M3974>>>" ++ check (runes_of_ascii "packet tag {
-    @calculatedFrom(""" ++ [28040; 24687]%N ++ runes_of_ascii """)
-    A `" ++ [233]%N ++ runes_of_ascii "`,
-    // a // b
-    match u as len {
-        [42, """ ++ [233]%N ++ runes_of_ascii "t" ++ [233]%N ++ runes_of_ascii """] : As,
-        42 : string_,
-        ""CRC32"" : body,
-        ""x y"" : x,
-        [
-            007, 4294967296, ""{,}"", """", """ ++ [28040; 24687]%N ++ runes_of_ascii """,
-            ""it's"", """ ++ [128512]%N ++ runes_of_ascii """
-        ] : u,
-        """ ++ [28040; 24687]%N ++ runes_of_ascii """ : _x,
+Eval vm_compute in ("<<<M1694>>>" ++ check (runes_of_ascii "packet leftPad {
+    @tag(3)
+    @tag(255)
+    @tag(7)
+    Packet @calculatedFrom(""\n""),
+    @calculatedFrom(""abc"")
+    repeat f32a trueish `// not a comment`,
+    match calculatedFrom as stringy {
+        [1, 65535] : u,
     },
-    @lengthOf(rootA)
-    u128 `doc`,// " ++ [27880; 37322]%N ++ runes_of_ascii "
-}
-
-options {
-    falsey = string
-    string_ = int8;
-}
-
-options {
-    // c
-    charz = ""CRC32""
+    zchar[10] o ``,
+    @lengthOf(calculatedFrom)
+    char x_y_z,
+    char[] BodyLength,
+    stringy o `line1
+    line2`,
+    @tag(00)
+    options1 {
+        // @lengthOf(
+        float32 asx @lengthOf(roots),
+        // " ++ [128512]%N ++ runes_of_ascii " emoji
+        // `tick` ""quote"" 'q'
+        match Z9_ as int {
+            ""{,}"" : A,
+            [""a\""b"", ""it's""] : repeatCount,
+            1 : float,
+            ""a\\"" : zchar,
+            // `tick` ""quote"" 'q'
+            [
+                0, ""abc"", 0, 00, 0,
+                """ ++ [128512]%N ++ runes_of_ascii """
+            ] : T,
+            0123456789 : As,
+        },
+    },
+    @lengthOf(msg_type)
+    i8 matchKey,
+    repeat len len `a\`,
 }")).
-Eval vm_compute in ("<<<M4586>>>" ++ check (runes_of_ascii "root packet crc {
-    @leftPad('0')
-    @lengthOf(float)
-    roots Logon `u8 x,`,
-    char[3] repeatCount `a\`,
-    match uint8x as msg_type {
-        10 : body,
-        0123456789 : o,
-    },
-    repeat x {
-        uint8 roots @calculatedFrom(""abc"") `" ++ [28040; 24687; 31867; 22411]%N ++ runes_of_ascii "`,
-    },
-}
+Eval vm_compute in ("<<<M344>>>" ++ check (runes_of_ascii "// " ++ [27880; 37322]%N ++ runes_of_ascii "
+root packet _x {
+//	t
+// packet A { u8 x, }
+@rightPad (
+) zchar[
+    007]
+    Logon @calculatedFrom(""x y""),zchar[
+7]
+string_ @lengthOf(
+Packet /// triple
+)
+`two words`,
+@tag( 007 )	@calculatedFrom(
+    ""x y"" )repeat
+calculatedFrom { // packet A { u8 x, }
+zchar @calculatedFrom( """ ++ [233]%N ++ runes_of_ascii "t" ++ [233]%N ++ runes_of_ascii """
+    // `tick` ""quote"" 'q'
+    )	,
+int32 leftPad , } ,repeat body chars ,	@lengthOf(
+options1
+    ) repeat
+    //	t
+    char[
+255] Foo  ,
+// c
+//
+repeat MetaDataX
+    { pack, } ,char[
+7 ] repeatCount @calculatedFrom(""it's""  ) , }
+    // trailing space 
+    packet Packet {
+    Header
+// " ++ [27880; 37322]%N ++ runes_of_ascii "
+// @lengthOf(
+@lengthOf( uint8x ) `two words` ,} options//	t
+{  } root
+    // " ++ [27880; 37322]%N ++ runes_of_ascii "
+    packet msg_type
+{int32 //x
+body`" ++ [28040; 24687; 31867; 22411]%N ++ runes_of_ascii "`,
+    }
+")).
+Eval vm_compute in ("<<<M236>>>" ++ check (runes_of_ascii "MetaData As {  } packet float { // @lengthOf(
+options1  Pad `// not a comment` ,
+uint16 As `line1
+line2` ,float32 stringy@calculatedFrom(
+""`tick`""
+) `" ++ [233]%N ++ runes_of_ascii "` ,
+repeat Packet { zchar[ 3 ] T
+    @calculatedFrom(
+""x y""),  char[ 7 ]  asx @lengthOf( tag) ,
+    //
+    int64 charz `u8 x,`
+, } , uint32
+len , @tag(	0123456789
+) Foo packetx `// not a comment`,char[] trueish @lengthOf(
+rootA
+    ) , @leftPad (//
+'0'  ) repeat  x_y_z `{ , }` , i64 u128 ,
+    }
+    packet msg_type//x
+{
+char[]
+i8i8
+    `doc` //	t
+,string trueish @calculatedFrom(
+    """" ), char[ 7 ]/// triple
+string_// packet A { u8 x, }
+`say ""hi""`
+/// triple
+//
+,	}
+")).
+Eval vm_compute in ("<<<M1794>>>" ++ check (runes_of_ascii "
+root  packet // a // b
 
-packet calculatedFrom {
-    uint8 MetaDataX `// not a comment`,
-}
+	matchKey{ @calculatedFrom(
 
-packet crc {
-    Z9_ {
-        repeat crc `doc`,
-        Z9_ ``,
-    },
-}
-// a // b")).
-Eval vm_compute in ("<<<M4424>>>" ++ check (runes_of_ascii "MetaData Header {
+""// no comment"" ) 
+match
+matchKey
+    as
+crc
+
+{65535	:	metadata	,
+255
+:
+options1 
+,	""{,}"" 
+:
+asx
+,[
+
+""\" ++ [233]%N ++ runes_of_ascii """, 00  ,""""  ,	/// triple
+  ""{,}"",
+    ""a\\""
+	] :	msg_type
+,
+007
+	:f32a 
+, //x
+  }  , @lengthOf(
+
+    repeatCount 
+)
+
+@leftPad 
+(
+    )
+@calculatedFrom(
+
+    ""a\\""
+	)
+
+float
+
+,@tag(42
+    ) 
+u8 
+crc
+	@calculatedFrom(  //
+  """ ++ [28040; 24687]%N ++ runes_of_ascii """  // " ++ [27880; 37322]%N ++ runes_of_ascii "
+		)
+,
+uint64
+
+    BodyLength	@lengthOf( 
+f32a )
+`" ++ [28040; 24687; 31867; 22411]%N ++ runes_of_ascii "`
+
+, 
+tag a1	,
+	tag	@calculatedFrom( ""`tick`""
+	)
+    , }// trailing space 
+")).
+Eval vm_compute in ("<<<M1548>>>" ++ check (runes_of_ascii "
+
+  options
+    {LittleEndian=
+true; 
+StringPrefixLenType
+=u16
+
+; ArrayPrefixLenType =
+
+u64; 
+}  packet Fill 
+{
+
+    } packet Logon  { repeat
+char[ 3 ] 
+Tail	,
+    zchar[
+6 
+]  venue
+    ,
+	repeat
+	string
+
+Side2
+
+,
+	} root packet Cancel 
+{	char[]  Flags,
+
+char[]
+	OrderId 
+, zchar[6
+
+]
+	msgKind , Fill
+	,
+
+char[]
+    Acct  ,
+	u8
+
+    f1 ,	match
+f1
+	as
+	Body
+	{
+
+    188 
+:Fill
+,	5
+
+:  Logon
+    ,
+	} ,
+	u32
+    clOrdID
+	@calculatedFrom(
+    ""CRC32"" 
+) ,}")).
+Eval vm_compute in ("<<<M1974>>>" ++ check (runes_of_ascii "MetaData Header {
     int64 zchar `u8 x,`,
     Header u8x,
     zchar[65535] u,
@@ -1656,7 +719,7 @@ MetaData float {
     len leftPad,
     A Foo `tab	here`,
     char[65535] T `line1
-    line2`,
+        line2`,
 }
 
 options {
@@ -1666,1120 +729,559 @@ options {
     float = true;
     Foo = ""\n""
 }")).
-Eval vm_compute in ("<<<M4046>>>" ++ check (runes_of_ascii "root packet u {
-    uint8x falsey,
-    repeat char[0] o `u8 x,`,
-    @rightPad('\x00')
-    match leftPad as u {
-        7 : crc,
-        [""`tick`"", 0123456789] : Packet,
-        [42] : msg_type,
-        3 : tag,
-    },/// triple
-    @calculatedFrom(""1"")
-    char[1] leftPad,
-}
+Eval vm_compute in ("<<<M245>>>" ++ check (runes_of_ascii "root packet  roots
+{ falsey@calculatedFrom(""a\""b"" ) ,
+    @lengthOf(
+A )Header @calculatedFrom( ""packet""
+) `u8 x,` ,
+@leftPad  (' '
+) @lengthOf(
+    calculatedFrom)
+// `tick` ""quote"" 'q'
+// packet A { u8 x, }
+match rootA as x_y_z {42	:
+    //	t
+    len, }, } options //x
+{ chars =// c
+4294967296 ;
+    BodyLength
+    = 0123456789 roots
+    = ""a\""b"";
+} //")).
+Eval vm_compute in ("<<<M1796>>>" ++ check (runes_of_ascii "
+options
 
-packet o {
-    char[] falsey,
-    repeat i8 f32a `tab	here`,
-    float64 pack @calculatedFrom(""\" ++ [233]%N ++ runes_of_ascii """),
-}")).
-Eval vm_compute in ("<<<M3817>>>" ++ check (runes_of_ascii "MetaData
+{ LittleEndian
+	=	true
+; StringPrefixLenType
 
-u
-{
-}options
-
-{
-	    // c
-	// @lengthOf(
-    float = int8 ;
-
-    rootA
-    = false ; As
 =
-	int16	// `tick` ""quote"" 'q'
-  repeatCount 
-      // trailing space 
+u8
 
-  = int16 
-u8x 
-= 
-//	t
-  '\x00' ;
-    } options	{repeatCount
+    ;  ArrayPrefixLenType
+    =
+	u8	; } packet	Ack
 
-    =0
-u128 
-        //
-      = false ; i64_ 
-	    // trailing space 
-    	// `tick` ""quote"" 'q'
-  ='0'
-;  //	t
-    }")).
-Eval vm_compute in ("<<<M873>>>" ++ check (runes_of_ascii "root packet BodyLength { uint16
-As `crlf
-line`
+{
+    }root 
+packet
+Quote {
+Ack
+, 
+InSym94  { repeat
+
+Ack
+
+    ,
+	}  ,u16
+
+    msgKind
+,
+	u16 OrderId@lengthOf( Body
+	)
+
+    ,
+
+match
+msgKind
+as 
+Body {[ 110,48 
+]
+: 
+Ack
+, } ,
+
+    } ")).
+Eval vm_compute in ("<<<M160>>>" ++ check (runes_of_ascii "packet matchKey
+{ // packet A { u8 x, }
+zchar[ 65535
 //	t
+// packet A { u8 x, }
+] Foo @calculatedFrom(
 // " ++ [128512]%N ++ runes_of_ascii " emoji
-,}packet A {
-@calculatedFrom(""{,}""/// triple
-)
-    f32 trueish`// not a comment` , // `tick` ""quote"" 'q'
-}
-packet i8i8 {zchar[ 007 ]leftPad,@tag(
-    10
-)  tag  @lengthOf( o )
-, float64
-    T
-, @calculatedFrom( // " ++ [27880; 37322]%N ++ runes_of_ascii "
-""a\""b"" )
-string uint8x@calculatedFrom( ""abc"")`two words` ,
-}
+// a // b
+""\n"" ) ``, @tag(10 ) repeat
+x Logon`
+` , @calculatedFrom(
+    ""it's"" ) @rightPad (
+) zchar[ 255 ]	lengthOf
+    // @lengthOf(
+    , repeat uint8x`" ++ [233]%N ++ runes_of_ascii "`
+,
+    }
 ")).
-Eval vm_compute in ("<<<M1324>>>" ++ check (runes_of_ascii "
-root packet As {	u
-{ tag
-    a1
-, repeat charz `a\` , } ,match float
-    as
-u128 {""a\\"" : msg_type
-    ,""`tick`"": packetx, } , repeat
-char[
-    255 ] falsey `two words` ,
-f32
-    packetx  , zchar[0 //	t
-] options1 `{ , }`, repeat rootA
-    `
-` , }
-MetaData Header {
-u32 Header `` , }
-//x
-//x
-MetaData matchKey{ msg_type Z9_ ,
+Eval vm_compute in ("<<<M501>>>" ++ check (runes_of_ascii "root packet tag { packet  packet MetaDataX{char[007	]
+// c
+/// triple
+asx  @calculatedFrom( ""a\""b""
+) `say ""hi""`// " ++ [27880; 37322]%N ++ runes_of_ascii "
+,  @tag(4294967296 )
+    char[1//x
+] packetx @calculatedFrom(""a\""b""
+    ) ,
+// " ++ [128512]%N ++ runes_of_ascii " emoji
+// a // b
+@calculatedFrom(""" ++ [233]%N ++ runes_of_ascii "t" ++ [233]%N ++ runes_of_ascii """  ) repeat pack // " ++ [27880; 37322]%N ++ runes_of_ascii "
+,
+    } // c")).
+Eval vm_compute in ("<<<M649>>>" ++ check (runes_of_ascii "root packet tag { }  packet MetaDataX{char[007	]
+// c
+/// triple
+asx  @calculatedFrom( ""a\""b""
+) `say ""hi""`// " ++ [27880; 37322]%N ++ runes_of_ascii "
+,  @tag(4294967296 )
+    char[1//x
+] packetx @calculatedFrom(""a\""b""
+    ) ,
+// " ++ [128512]%N ++ runes_of_ascii " emoji
+// a // b
+@calculatedFrom(""" ++ [233]%N ++ runes_of_ascii "t" ++ [233]%N ++ runes_of_ascii """  ) repeat pack // " ++ [27880; 37322]%N ++ runes_of_ascii "
+,
+    } } // c")).
+Eval vm_compute in ("<<<M491>>>" ++ check (runes_of_ascii "root packet i16 { }  packet MetaDataX{char[007	]
+// c
+/// triple
+asx  @calculatedFrom( ""a\""b""
+) `say ""hi""`// " ++ [27880; 37322]%N ++ runes_of_ascii "
+,  @tag(4294967296 )
+    char[1//x
+] packetx @calculatedFrom(""a\""b""
+    ) ,
+// " ++ [128512]%N ++ runes_of_ascii " emoji
+// a // b
+@calculatedFrom(""" ++ [233]%N ++ runes_of_ascii "t" ++ [233]%N ++ runes_of_ascii """  ) repeat pack // " ++ [27880; 37322]%N ++ runes_of_ascii "
+,
+    } // c")).
+Eval vm_compute in ("<<<M493>>>" ++ check (runes_of_ascii "root packet tag  }  packet MetaDataX{char[007	]
+// c
+/// triple
+asx  @calculatedFrom( ""a\""b""
+) `say ""hi""`// " ++ [27880; 37322]%N ++ runes_of_ascii "
+,  @tag(4294967296 )
+    char[1//x
+] packetx @calculatedFrom(""a\""b""
+    ) ,
+// " ++ [128512]%N ++ runes_of_ascii " emoji
+// a // b
+@calculatedFrom(""" ++ [233]%N ++ runes_of_ascii "t" ++ [233]%N ++ runes_of_ascii """  ) repeat pack // " ++ [27880; 37322]%N ++ runes_of_ascii "
+,
+    } // c")).
+Eval vm_compute in ("<<<M638>>>" ++ check (runes_of_ascii "root packet tag { }  packet MetaDataX{char[007	]
+// c
+/// triple
+asx  @calculatedFrom( ""a\""b""
+) `say ""hi""`// " ++ [27880; 37322]%N ++ runes_of_ascii "
+,  @tag(4294967296 )
+    char[1//x
+] packetx @calculatedFrom(""a\""b""
+    ) ,
+// " ++ [128512]%N ++ runes_of_ascii " emoji
+// a // b
+@calculatedFrom(""" ++ [233]%N ++ runes_of_ascii "t" ++ [233]%N ++ runes_of_ascii """  ) repeat  // " ++ [27880; 37322]%N ++ runes_of_ascii "
+,
+    } // c")).
+Eval vm_compute in ("<<<M538>>>" ++ check (runes_of_ascii "root packet tag { }  packet MetaDataX{char[007	]
+// c
+/// triple
+asx   ""a\""b""
+) `say ""hi""`// " ++ [27880; 37322]%N ++ runes_of_ascii "
+,  @tag(4294967296 )
+    char[1//x
+] packetx @calculatedFrom(""a\""b""
+    ) ,
+// " ++ [128512]%N ++ runes_of_ascii " emoji
+// a // b
+@calculatedFrom(""" ++ [233]%N ++ runes_of_ascii "t" ++ [233]%N ++ runes_of_ascii """  ) repeat pack // " ++ [27880; 37322]%N ++ runes_of_ascii "
+,
+    } // c")).
+Eval vm_compute in ("<<<M1508>>>" ++ check (runes_of_ascii "options
+    {  FixedStringPadChar=	'0'
+    ; 
+}packet
+Q {
+
+zchar[
+	4
+] z , @rightPad
+( '\x00'  ) char[3 ] 
+n , char[ 5
+] d
+
+    ,  }root 
+packet R {
+    Q
+,
+	zchar[ 8
+    ] 
+top
+, repeat zchar[
+2
+
+    ] zs,
+
+    }
+
+")).
+Eval vm_compute in ("<<<M1936>>>" ++ check (runes_of_ascii "packet A {
+    match k as n {
+        ""\
+                "" : B,
+        [""\
+                "", 1] : C,
+        [
+            1, 2, 3, 4, 5,
+            ""\
+                        ""
+        ] : D,
+    },
 }")).
-Eval vm_compute in ("<<<M1971>>>" ++ check (runes_of_ascii "MetaData
-    u { }  options {
-// c
-// @lengthOf(
-float = int8 ;rootA =false ; As =	int16 // `tick` ""quote"" 'q'
-repeatCount
-    // trailing space 
-    =
-    int16
-; u8x =
-    //	t
-    '\x00' '\x00' ; } options	{
-    repeatCount
-= 0
-u128
-    //
-    = false ; i64_
-// trailing space 
-// `tick` ""quote"" 'q'
-= '0' ; //	t
+Eval vm_compute in ("<<<M1671>>>" ++ check (runes_of_ascii "packet u128 {
+    u8 a,
 }
-")).
-Eval vm_compute in ("<<<M1898>>>" ++ check (runes_of_ascii "MetaData
-    u { }  options {
-// c
-// @lengthOf(
-float = float32 ;rootA =false ; As =	int16 // `tick` ""quote"" 'q'
-repeatCount
-    // trailing space 
-    =
-    int16
-; u8x =
-    //	t
-    '\x00' ; } options	{
-    repeatCount
-= 0
-u128
-    //
-    = false ; i64_
-// trailing space 
-// `tick` ""quote"" 'q'
-= '0' ; //	t
-}
-")).
-Eval vm_compute in ("<<<M2051>>>" ++ check (runes_of_ascii "MetaData
-    u { }  options {
-// c
-// @lengthOf(
-float = int8 ;rootA =false ; As =	int16 // `tick` ""quote"" 'q'
-repeatCount
-    // trailing space 
-    =
-    int16
-; u8x =
-    //	t
-    '\x00' ; } options	{
-    repeatCount
-= 0
-u128
-    //
-    = false ; i64_
-// trailing space 
-// `tick` ""quote"" 'q'
-= '0' ; //	t
-} }
-")).
-Eval vm_compute in ("<<<M1882>>>" ++ check (runes_of_ascii "MetaData
-    u { }  options float
-// c
-// @lengthOf(
-{ = int8 ;rootA =false ; As =	int16 // `tick` ""quote"" 'q'
-repeatCount
-    // trailing space 
-    =
-    int16
-; u8x =
-    //	t
-    '\x00' ; } options	{
-    repeatCount
-= 0
-u128
-    //
-    = false ; i64_
-// trailing space 
-// `tick` ""quote"" 'q'
-= '0' ; //	t
-}
-")).
-Eval vm_compute in ("<<<M2032>>>" ++ check (runes_of_ascii "MetaData
-    u { }  options {
-// c
-// @lengthOf(
-float = int8 ;rootA =false ; As =	int16 // `tick` ""quote"" 'q'
-repeatCount
-    // trailing space 
-    =
-    int16
-; u8x =
-    //	t
-    '\x00' ; } options	{
-    repeatCount
-= 0
-u128
-    //
-    = false ; =
-// trailing space 
-// `tick` ""quote"" 'q'
-i64_ '0' ; //	t
-}
-")).
-Eval vm_compute in ("<<<M2045>>>" ++ check (runes_of_ascii "MetaData
-    u { }  options {
-// c
-// @lengthOf(
-float = int8 ;rootA =false ; As =	int16 // `tick` ""quote"" 'q'
-repeatCount
-    // trailing space 
-    =
-    int16
-; u8x =
-    //	t
-    '\x00' ; } options	{
-    repeatCount
-= 0
-u128
-    //
-    = false ; i64_
-// trailing space 
-// `tick` ""quote"" 'q'
-= '0'  //	t
-}
-")).
-Eval vm_compute in ("<<<M502>>>" ++ check (runes_of_ascii "
-root  packet BodyLength {
-    match
-matchKey as
-    As  { 255: Foo
-//
-//x
-,  10 :
-len , // packet A { u8 x, }
-""" ++ [233]%N ++ runes_of_ascii "t" ++ [233]%N ++ runes_of_ascii """
-    :tag , }
-    //	t
-    , packetx A , @calculatedFrom(
-""" ++ [233]%N ++ runes_of_ascii "t" ++ [233]%N ++ runes_of_ascii """) Logon `crlf
-line` // c
-, char[]
-charz
-    `a\` , zchar[
-    //x
-    42 ] chars , }
-    MetaData charz
-{ }
-packet zchar {}")).
-Eval vm_compute in ("<<<M2044>>>" ++ check (runes_of_ascii "MetaData
-    u { }  options {
-// c
-// @lengthOf(
-float = int8 ;rootA =false ; As =	int16 // `tick` ""quote"" 'q'
-repeatCount
-    // trailing space 
-    =
-    int16
-; u8x =
-    //	t
-    '\x00' ; } options	{
-    repeatCount
-= 0
-u128
-    //
-    = false ; i64_
-// trailing space 
-// `tick` ""quote"" 'q'
-=")).
-Eval vm_compute in ("<<<M4602>>>" ++ check (runes_of_ascii "options{
 
-    metadata
-=
-	char[
-    10 ]
-
-    tag=007
-    ;	stringy
-
-= 0
-
-;
-
-x_y_z
-    =
-
-    true	// a // b
-
-  ;
-}
-root
-    packet  o // " ++ [27880; 37322]%N ++ runes_of_ascii "
-    {
-@tag( // a // b
-3
-
-)	@leftPad (  '0'	)  @tag( 
-	// packet A { u8 x, }
-  // a // b
-00 )  i64_
-
-@lengthOf( 
-	    //
-	falsey
-)
-	,  }")).
-Eval vm_compute in ("<<<M916>>>" ++ check (runes_of_ascii "root packet lengthOf { int32 body@lengthOf( Z9_
-)
-    `// not a comment` ,}
-options { charz /// triple
-=
-    true }
-    packet
-asx { @tag(
-// `tick` ""quote"" 'q'
-// trailing space 
-255 ) msg_type
-// trailing space 
-// `tick` ""quote"" 'q'
-{ repeat
-crc	charz
-    //
-    ,} , }")).
-Eval vm_compute in ("<<<M4361>>>" ++ check (runes_of_ascii "  options 
+root packet Msg {
+    u8 k,
+    u24 {
+        u8 Hi,
+        u16 Lo,
+    },
+    repeat i24 {
+        u32 q,
+    },
+    u128,
+    u16 float32x,
+    string s,
+}")).
+Eval vm_compute in ("<<<M400>>>" ++ check (runes_of_ascii "packet
+    // `tick` ""quote"" 'q'
+    crc
+// packet A { u8 x, }
+//	t
 {
+u32 u32 a1 ,
+    // trailing space 
+    roots
+charz //
+`two words`,	}
+    MetaData int {
+} /// triple")).
+Eval vm_compute in ("<<<M683>>>" ++ check (runes_of_ascii "root packet len // trailing space 
+{
+// " ++ [27880; 37322]%N ++ runes_of_ascii "
+//	t
+char[10
+] metadata	@lengthOf( o ) `crlf
+line`,
+    @rightPad
+( ' '
+) ) string
+    Header @calculatedFrom( ""a\\""
+    ), }
+")).
+Eval vm_compute in ("<<<M441>>>" ++ check (runes_of_ascii "packet
+    // `tick` ""quote"" 'q'
+    crc
+// packet A { u8 x, }
+//	t
+{
+u32 a1 ,
+    // trailing space 
+    roots
+charz //
+`two words`,	}
+    int MetaData {
+} /// triple")).
+Eval vm_compute in ("<<<M404>>>" ++ check (runes_of_ascii "packet
+    // `tick` ""quote"" 'q'
+    crc
+// packet A { u8 x, }
+//	t
+{
+u32  ,
+    // trailing space 
+    roots
+charz //
+`two words`,	}
+    MetaData int {
+} /// triple")).
+Eval vm_compute in ("<<<M1883>>>" ++ check (runes_of_ascii "root  packet matchKey{zchar[
+	3
 
-calculatedFrom= false	;} packet	i64_
-	{
-body ,  
-      //	t
-  //x
-		} /// triple
-  	options  {float
-    =
-    true
-    ;// @lengthOf(
-    charz= 	 // a // b
-    	char[65535 ] ;  u
-=/// triple
-true
-;metadata	=
+]
 
-    ""\" ++ [233]%N ++ runes_of_ascii """ matchKey
-= '\x00'
+    pack
+// c
+@calculatedFrom(
+""a	b""  ) `doc`
+    ,  }
 
-}// " ++ [27880; 37322]%N)).
-Eval vm_compute in ("<<<M3760>>>" ++ check (runes_of_ascii "MetaData a1 {
-    //x
-    u8 u8x,
+    options {  }
+
+    MetaData
+A { 
+int8
+msg_type
+	,
+
+    }")).
+Eval vm_compute in ("<<<M1707>>>" ++ check (runes_of_ascii "
+root	packet // c
+      matchKey
+
+    {zchar[ 3
+	] pack  @calculatedFrom( ""a	b""
+)`doc`
+    ,
+}
+	options
+{
+	}
+
+MetaData A
+
+{ 
+int8 msg_type
+    ,}
+")).
+Eval vm_compute in ("<<<M1689>>>" ++ check (runes_of_ascii "packet A {
+    match k as n {
+        [
+            ""a"", 22, ""c c"", 4, ""e"",
+            66, ""g"", 8, ""i""
+        ] : B,
+        2 : C,
+    },
+}")).
+Eval vm_compute in ("<<<M1954>>>" ++ check (runes_of_ascii "
+packet
+
+    o{repeat
+	Logon  uint8x
+
+    ,  } 
+// c
+options
+
+    {asx
+
+    = zchar[ 3
+    ]
+    stringy  ='\x00'
+
+    }
+
+")).
+Eval vm_compute in ("<<<M2073>>>" ++ check (runes_of_ascii "// c
+root packet matchKey {
+    zchar[3] pack @calculatedFrom(""a	b"") `doc`,
 }
 
 options {
-    float = '0';
-    // @lengthOf(
-    pack = string;
 }
 
-MetaData packetx {
-    tag Foo `
-    `,
-    uint8x asx,
-    uint16 body,
-    T x,// packet A { u8 x, }
-    float a1 `
-    `,
-    matchKey crc,
-}
-// a // b")).
-Eval vm_compute in ("<<<M1508>>>" ++ check (runes_of_ascii "packet
-//	t
-// trailing space 
-_x {
-// packet A { u8 x, }
-// c
-char[
-3 3
-    ] u8x @lengthOf(
-u8x ) , @calculatedFrom(""" ++ [128512]%N ++ runes_of_ascii """ // @lengthOf(
-)
-i16	Foo
-@lengthOf(	string_
-    )`doc`	, repeat	i64 metadata , @lengthOf( string_
-) i8 // c
-u  `line1
-line2`	,
-}
-")).
-Eval vm_compute in ("<<<M1665>>>" ++ check ([65279]%N ++ runes_of_ascii "packet
-//	t
-// trailing space 
-_x {
-// packet A { u8 x, }
-// c
-char[
-3
-    ] u8x @lengthOf(
-u8x ) , @calculatedFrom(""" ++ [128512]%N ++ runes_of_ascii """ // @lengthOf(
-)
-i16	Foo
-@lengthOf(	string_
-    )`doc`	, repeat	i64 metadata , @lengthOf( string_
-) i8 // c
-u  `line1
-line2`	,
-}
-")).
-Eval vm_compute in ("<<<M1594>>>" ++ check (runes_of_ascii "packet
-//	t
-// trailing space 
-_x {
-// packet A { u8 x, }
-// c
-char[
-3
-    ] u8x @lengthOf(
-u8x ) , @calculatedFrom(""" ++ [128512]%N ++ runes_of_ascii """ // @lengthOf(
-)
-i16	Foo
-@lengthOf(	string_
-    )`doc`	, i64	repeat metadata , @lengthOf( string_
-) i8 // c
-u  `line1
-line2`	,
-}
-")).
-Eval vm_compute in ("<<<M1647>>>" ++ check (runes_of_ascii "packet
-//	t
-// trailing space 
-_x {
-// packet A { u8 x, }
-// c
-char[
-3
-    ] u8x @lengthOf(
-u8x ) , @calculatedFrom(""" ++ [128512]%N ++ runes_of_ascii """ // @lengthOf(
-)
-i16	Foo
-@lengthOf(	string_
-    )`doc`	, repeat	i64 metadata , @lengthOf( string_
-) i8 // c
-u  `line1
-line2`	,
-
-")).
-Eval vm_compute in ("<<<M1570>>>" ++ check (runes_of_ascii "packet
-//	t
-// trailing space 
-_x {
-// packet A { u8 x, }
-// c
-char[
-3
-    ] u8x @lengthOf(
-u8x ) , @calculatedFrom(""" ++ [128512]%N ++ runes_of_ascii """ // @lengthOf(
-)
-i16	Foo
-i32	string_
-    )`doc`	, repeat	i64 metadata , @lengthOf( string_
-) i8 // c
-u  `line1
-line2`	,
-}
-")).
-Eval vm_compute in ("<<<M3744>>>" ++ check (runes_of_ascii "packet lengthOf {
-    @tag(65535)
-    match crc as i8i8 {
-        [
-            65535, 42, ""it's"", ""x y"", 7,
-            ""a	b""
-        ] : float,
-        00 : MetaDataX,
-        00 : options1,
-        1 : a1,
-        0 : packetx,
-    },
+MetaData A {
+    int8 msg_type,
 }")).
-Eval vm_compute in ("<<<M1171>>>" ++ check (runes_of_ascii "root  packet
-msg_type {
+Eval vm_compute in ("<<<M1239>>>" ++ check (runes_of_ascii "root packet matchKey { zchar[ 3 ] pack @calculatedFrom( // c
+""a	b"" ) `doc` , } options { } MetaData A { int8 msg_type , }")).
+Eval vm_compute in ("<<<M70>>>" ++ check (runes_of_ascii "
+options {  MetaDataX= ""\" ++ [233]%N ++ runes_of_ascii """ }options {
 // @lengthOf(
 //	t
-string repeatCount `crlf
-line` , i8	Foo @lengthOf( MetaDataX )
-    , @tag( 10 ) @calculatedFrom(
-    ""abc"" ) @lengthOf( falsey
-    ) repeat stringy pack `doc`,  } options { As =65535}")).
-Eval vm_compute in ("<<<M3531>>>" ++ check (runes_of_ascii "options {
-    // c1
-LittleEndian // c2
-= true
-    // c4
-;
-    // c5
-} // c6
-root // c7a
-  // c7b
-packet
-    // c8
-P { repeat // c11a
-  // c11b
-char
-    // c12
-cs
-    // c13
-, u8 x // c16
-,
-    // c17
-} // c18a
-  // c18b
-")).
-Eval vm_compute in ("<<<M764>>>" ++ check (runes_of_ascii "MetaData// packet A { u8 x, }
-matchKey { u64
-leftPad
-    //x
-    ,
-u32 T `it's` , uint8 x,
-    // packet A { u8 x, }
-    char[] f32a	`say ""hi""`
-, f64// trailing space 
-stringy ``	, lengthOf
-Packet  `say ""hi""`, }")).
-Eval vm_compute in ("<<<M1369>>>" ++ check (runes_of_ascii "
-packet len
-{ Logon ,@tag( 42 ) Logon { o @calculatedFrom( ""CRC32""
-)`crlf
-line` ,
-char[]
-    /// triple
-    Logon
-    @calculatedFrom(	""x y""	) ,}
-    ,
-    @leftPad ( '0' )body
-, }
-packet uint8x {} // a // b")).
-Eval vm_compute in ("<<<M1707>>>" ++ check (runes_of_ascii "options { trueish = ""`tick`"" ; string_= = """ ++ [233]%N ++ runes_of_ascii "t" ++ [233]%N ++ runes_of_ascii """
-    // c
-    } root
-    packet body { stringy @calculatedFrom(
-""a	b"" ) `line1
-line2` , }
-packet Logon {
-    @leftPad(
-    ' ' ) //	t
-u16 string_ `u8 x,` ,
-}
-")).
-Eval vm_compute in ("<<<M3208>>>" ++ check (runes_of_ascii "// top
-packet // c0
-metadata // c1
-{ // c2
-Logon // c3
-{ // c4
-A // c5
-`" ++ [28040; 24687; 31867; 22411]%N ++ runes_of_ascii "` // c6
-, // c7
-tag // c8
-o // c9
-, // c10
-} // c11
-, // c12
-zchar // c13
-len // c14
-`// not a comment` // c15
-, // c16
-} // c17
-")).
-Eval vm_compute in ("<<<M1793>>>" ++ check (runes_of_ascii "options { trueish = ""`tick`"" ; string_= """ ++ [233]%N ++ runes_of_ascii "t" ++ [233]%N ++ runes_of_ascii """
-    // c
-    } root
-    packet body { stringy @calculatedFrom(
-""a	b"" ) `line1
-line2` , }
-packet Logon {
-    (@leftPad
-    ' ' ) //	t
-u16 string_ `u8 x,` ,
-}
-")).
-Eval vm_compute in ("<<<M1819>>>" ++ check (runes_of_ascii "options { trueish = ""`tick`"" ; string_= """ ++ [233]%N ++ runes_of_ascii "t" ++ [233]%N ++ runes_of_ascii """
-    // c
-    } root
-    packet body { stringy @calculatedFrom(
-""a	b"" ) `line1
-line2` , }
-packet Logon {
-    @leftPad(
-    ' ' ) //	t
-u16 @tag( `u8 x,` ,
-}
-")).
-Eval vm_compute in ("<<<M690>>>" ++ check (runes_of_ascii "packet // a // b
-rootA {Z9_ // c
-u `doc`, // packet A { u8 x, }
-i16 options1 `// not a comment` , @rightPad
-(
-' '
-    )	lengthOf
-{	zchar[// a // b
-3 // packet A { u8 x, }
-] body,
-    }
-    , } 	 ")).
-Eval vm_compute in ("<<<M1984>>>" ++ check (runes_of_ascii "MetaData
-    u { }  options {
-// c
-// @lengthOf(
-float = int8 ;rootA =false ; As =	int16 // `tick` ""quote"" 'q'
-repeatCount
-    // trailing space 
-    =
-    int16
-; u8x =
+Logon = ""1""
+    x_y_z = 65535  } MetaData
     //	t
-    '\x00' ;")).
-Eval vm_compute in ("<<<M1128>>>" ++ check (runes_of_ascii "packet Foo { @tag( 0 ) @lengthOf(
-Packet
-// packet A { u8 x, }
-// packet A { u8 x, }
-) zchar[65535 ]  chars `it's` ,  float
-@lengthOf( repeatCount)
-    `line1
-line2` , }
-    options { }
+    u8x {}
 ")).
-Eval vm_compute in ("<<<M3579>>>" ++ check (runes_of_ascii "
-packet A{	u8	a ,
-
-    }
-packet
-
-B  {u16	b,
-
-}root
-
-packet P{ u8	K1
-    ,u8 K2 
-, 
-match
-    K1 as M1  {
-    1
-    :	A
-,
-
-    }	, match
-
-    K2
+Eval vm_compute in ("<<<M1795>>>" ++ check (runes_of_ascii "packet metadata {
+    Logon {
+        A `" ++ [28040; 24687; 31867; 22411]%N ++ runes_of_ascii "`,
+        tag o,
+    },
+    // c
+    zchar len `// not a comment`,
+}")).
+Eval vm_compute in ("<<<M1752>>>" ++ check (runes_of_ascii "packet
+    A
+{ match 
+k
 as
-	M2
 
-    {1: B,	} , 
-} ")).
-Eval vm_compute in ("<<<M1159>>>" ++ check (runes_of_ascii "root
-packet // " ++ [128512]%N ++ runes_of_ascii " emoji
-_x
-{@rightPad ( ' ' )
-f32
-    zchar
-    @calculatedFrom(
-    ""abc"" )`
-` , char[
-    // trailing space 
-    255
-] roots `crlf
-line` ,repeat u8x , }
+n {[	""a""
 
-")).
-Eval vm_compute in ("<<<M69>>>" ++ check (runes_of_ascii "options { o =""x y""
-//x
-// trailing space 
-; float
-    = ""\n"" metadata
-// " ++ [128512]%N ++ runes_of_ascii " emoji
-// `tick` ""quote"" 'q'
-=
-    """ ++ [128512]%N ++ runes_of_ascii """;Logon
-//
-//	t
-=
-true
-; i8i8  = string// @lengthOf(
-}")).
-Eval vm_compute in ("<<<M4134>>>" ++ check (runes_of_ascii "//	t
-MetaData chars {
-    falsey pack,
-    packetx zchar `
-        `,
-}// " ++ [128512]%N ++ runes_of_ascii " emoji
-
-packet u128 {
-    @lengthOf(tag)
-    @tag(1)
-    @rightPad('\x00')
-    i64 T,
-}")).
-Eval vm_compute in ("<<<M2135>>>" ++ check (runes_of_ascii "options{
-_x
-= true
-} options
-{ o	= /// triple
-false
-    ; chars chars
-= ""\n"" } root packet	Pad
-/// triple
-// packet A { u8 x, }
-{	chars
-    // a // b
-    ,}")).
-Eval vm_compute in ("<<<M2323>>>" ++ check (runes_of_ascii "// c
-packet x { @lengthOf( metadata ) repeat lengthOf
-,a1{
-trueish	,// c
-repeat//	t
-MetaDataX , } , zchar[
-    42	] rootA // `tick` ""quote"" 'q'
-""1""
-    }
-")).
-Eval vm_compute in ("<<<M403>>>" ++ check (runes_of_ascii "packet body {  @leftPad (
-    ) zchar[
-0 ] metadata , chars {
-repeat
-    // " ++ [128512]%N ++ runes_of_ascii " emoji
-    u8 string_,
-string options1
-    @calculatedFrom( """ ++ [28040; 24687]%N ++ runes_of_ascii """
-    ) , },}")).
-Eval vm_compute in ("<<<M2406>>>" ++ check (runes_of_ascii "// c
-packet x { @lengthOf( metadata ) repeat lengthOf
-,a1{
-trueish	,// c
-repeat//	t
-MetaDataX , } , zchar[
-    42	rootA ] // `tick` ""quote"" 'q'
 ,
-    }
-")).
-Eval vm_compute in ("<<<M2078>>>" ++ check (runes_of_ascii "{options
-_x
-= true
-} options
-{ o	= /// triple
-false
-    ; chars
-= ""\n"" } root packet	Pad
-/// triple
-// packet A { u8 x, }
-{	chars
-    // a // b
-    ,}")).
-Eval vm_compute in ("<<<M0>>>" ++ check (runes_of_ascii "
-packet /// triple
-uint8x	{@calculatedFrom(
-""a	b"" )
-//
-// " ++ [128512]%N ++ runes_of_ascii " emoji
-i32 charz
-    ,
-match //x
-x	as
-x {""a	b""  :
-lengthOf,} , leftPad
-    `{ , }` , } //x")).
-Eval vm_compute in ("<<<M2162>>>" ++ check (runes_of_ascii "options{
-_x
-= true
-} options
-{ o	= /// triple
-false
-    ; chars
-= ""\n"" } root i16	Pad
-/// triple
-// packet A { u8 x, }
-{	chars
-    // a // b
-    ,}")).
-Eval vm_compute in ("<<<M1790>>>" ++ check (runes_of_ascii "options { trueish = ""`tick`"" ; string_= """ ++ [233]%N ++ runes_of_ascii "t" ++ [233]%N ++ runes_of_ascii """
-    // c
-    } root
-    packet body { stringy @calculatedFrom(
-""a	b"" ) `line1
-line2` , }
-packet Logon")).
-Eval vm_compute in ("<<<M2316>>>" ++ check (runes_of_ascii "// c
-packet x {  metadata ) repeat lengthOf
-,a1{
-trueish	,// c
-repeat//	t
-MetaDataX , } , zchar[
-    42	] rootA // `tick` ""quote"" 'q'
+    22 ,  ""c c""
+,4
+,""e"" ,66
 ,
-    }
+
+""g"" 
+,	8
+	,	""i""]
+
+:  B 2	:C 
+}	, }
+
 ")).
-Eval vm_compute in ("<<<M176>>>" ++ check (runes_of_ascii "
-packet Foo {	} packet MetaDataX
-    {char[]	Logon
-// trailing space 
-//
-,  }root packet MetaDataX { match Z9_ as zchar{
-7 : zchar , } , }")).
-Eval vm_compute in ("<<<M4312>>>" ++ check (runes_of_ascii "packet A {
-    B b `a
-            b
-          c`,
-    B `a
-            b
-          c`,
-    repeat B bs `a
-            b
-          c`,
-}")).
-Eval vm_compute in ("<<<M3967>>>" ++ check (runes_of_ascii "
-// c
-  MetaData
-float {  float64 charz `
-`  ,
-	}	root
+Eval vm_compute in ("<<<M1711>>>" ++ check (runes_of_ascii "
 packet
 
-    chars
-    { @rightPad
-	( 
-'0'
+a1
+{match /// triple
+    T
+as 
+pack {
 
-    )
-    Foo 
-,
-    } ")).
-Eval vm_compute in ("<<<M935>>>" ++ check (runes_of_ascii "options	{ // " ++ [27880; 37322]%N ++ runes_of_ascii "
-zchar=	zchar[ 7
-]	;
-    asx = 10 ;
-zchar
-    = ""a\\"" ; float = 10
-Logon
-= '0';
-    }MetaData	crc {
-    }
+007 : Header,} ,calculatedFrom, }
+
+MetaData	options1	{ }")).
+Eval vm_compute in ("<<<M1751>>>" ++ check (runes_of_ascii "
+// top
+		root 
+    // c0
+
+packet
+	    // c1
+	pack
+    // c2
+    {  
+  // c3
+    	} 
+
+    // c4
+ 
 ")).
-Eval vm_compute in ("<<<M4393>>>" ++ check (runes_of_ascii "packet A {
-    u16 len @lengthOf(body) `x
-        `,
-    u32 crc @calculatedFrom(""CRC32"") `x
-        `,
-    string body,
-}")).
-Eval vm_compute in ("<<<M3336>>>" ++ check (runes_of_ascii "root packet matchKey { zchar[ 3 ] pack @calculatedFrom( ""a	b"" ) `doc` , // c
-} options { } MetaData A { int8 msg_type , }")).
-Eval vm_compute in ("<<<M1428>>>" ++ check (runes_of_ascii "
-packet
-    falsey { Header@calculatedFrom(""packet""  ) ) , char[
-    0123456789 ] packetx
-    , } // `tick` ""quote"" 'q'")).
-Eval vm_compute in ("<<<M4468>>>" ++ check (runes_of_ascii "packet A {
-    u16 len @lengthOf(body) `a
-    b`,
-    u32 crc @calculatedFrom(""CRC32"") `a
-    b`,
-    string body,
-}")).
-Eval vm_compute in ("<<<M1447>>>" ++ check (runes_of_ascii "
-packet
-    falsey { Header@calculatedFrom(""packet""  ) , char[
-    0123456789  packetx
-    , } // `tick` ""quote"" 'q'")).
-Eval vm_compute in ("<<<M4354>>>" ++ check (runes_of_ascii "packet MetaDataX {
-    i8i8 @calculatedFrom(""a\""b"") `
-    `,
-    @calculatedFrom(""a\\"")
-    leftPad,
+Eval vm_compute in ("<<<M46>>>" ++ check (runes_of_ascii "packet rootA{ }
+options
+{ uint8x =//	t
+u32 ; i64_
+=	255 ;
+len
+    = ' '
+    ;
+    } // @lengthOf(")).
+Eval vm_compute in ("<<<M1784>>>" ++ check (runes_of_ascii "packet o {
+    repeat Logon uint8x,
 }
-// " ++ [128512]%N ++ runes_of_ascii " emoji")).
-Eval vm_compute in ("<<<M2999>>>" ++ check (runes_of_ascii "packet A {
-  match k as n {
-    [""a"", ""bb"", 007, ""d"", ""e"", 66, ""g"", ""h"", 9, ""j"", ""k"", 12] : B
-    2 : C
-  },
+
+options {
+    asx = zchar[3]// c
+    stringy = '\x00'
 }")).
-Eval vm_compute in ("<<<M4446>>>" ++ check (runes_of_ascii "packet 
-stringy  { 
-@lengthOf(
-
-    crc
-)
-string repeatCount
-@calculatedFrom(
-    ""{,}"" 
-)
-
-    ,	}
-
+Eval vm_compute in ("<<<M1430>>>" ++ check (runes_of_ascii "packet chars { } packet MetaDataX { @tag( 42 ) i16 string_ , repeat x `say ""hi""` , } // c
 ")).
-Eval vm_compute in ("<<<M2981>>>" ++ check (runes_of_ascii "packet A {
-  match k as n {
-    [""a"", 22, ""c c"", 4, ""e"", 66, ""g"", 8, ""i"", 10, ""k""] : B,
-    2 : C
-  },
-}")).
-Eval vm_compute in ("<<<M1417>>>" ++ check (runes_of_ascii "
-packet
-    falsey { Header""packet""  ) , char[
-    0123456789 ] packetx
-    , } // `tick` ""quote"" 'q'")).
-Eval vm_compute in ("<<<M1546>>>" ++ check (runes_of_ascii "packet
+Eval vm_compute in ("<<<M1198>>>" ++ check (runes_of_ascii "MetaData float { float64 charz `
+` , } root packet // c
+chars { @rightPad ( '0' ) Foo , }")).
+Eval vm_compute in ("<<<M1409>>>" ++ check (runes_of_ascii "packet chars { } packet MetaDataX {
+// c
+@tag( 42 ) i16 string_ , repeat x `say ""hi""` , }")).
+Eval vm_compute in ("<<<M370>>>" ++ check (runes_of_ascii "MetaData falsey {
+//x
 //	t
-// trailing space 
-_x {
-// packet A { u8 x, }
+char[ /// triple
+65535]Packet `{ , }` , // @lengthOf(
+} //x")).
+Eval vm_compute in ("<<<M1139>>>" ++ check (runes_of_ascii "packet metadata { Logon { A `" ++ [28040; 24687; 31867; 22411]%N ++ runes_of_ascii "` ,
 // c
-char[
-3
-    ] u8x @lengthOf(
-u8x ) ,")).
-Eval vm_compute in ("<<<M91>>>" ++ check (runes_of_ascii "// trailing space 
-MetaData u8x
-{
-i64_
-    i64_ `doc`,i16 Z9_ `say ""hi""` , BodyLength
-roots ,
-}")).
-Eval vm_compute in ("<<<M3834>>>" ++ check (runes_of_ascii "
-MetaData body
-// c
-    {i64
-    pack `it's`,
-} 
-packet	stringy
-{ int16
-
-calculatedFrom, } ")).
-Eval vm_compute in ("<<<M881>>>" ++ check (runes_of_ascii "MetaData chars
-    {
-pack
-// " ++ [27880; 37322]%N ++ runes_of_ascii "
-/// triple
-calculatedFrom , }options { } // trailing space ")).
-Eval vm_compute in ("<<<M3519>>>" ++ check (runes_of_ascii "packet chars { } packet MetaDataX { @tag( 42 ) i16 string_ , repeat x `say ""hi""` , } // c
+tag o , } , zchar len `// not a comment` , }")).
+Eval vm_compute in ("<<<M1344>>>" ++ check (runes_of_ascii "packet o { // c
+repeat Logon uint8x , } options { asx = zchar[ 3 ] stringy = '\x00' }")).
+Eval vm_compute in ("<<<M1441>>>" ++ check (runes_of_ascii "options {
+    LittleEndian = true;
+}
+root packet P {
+    repeat char cs,
+    u8 x,
+}
 ")).
-Eval vm_compute in ("<<<M3284>>>" ++ check (runes_of_ascii "MetaData float { float64 charz `
-` , }
-// c
-root packet chars { @rightPad ( '0' ) Foo , }")).
-Eval vm_compute in ("<<<M3495>>>" ++ check (runes_of_ascii "packet chars { } packet MetaDataX // c
-{ @tag( 42 ) i16 string_ , repeat x `say ""hi""` , }")).
-Eval vm_compute in ("<<<M2217>>>" ++ check (runes_of_ascii "options
-{ } } options { BodyLength= u16 Header= f64 ; u128 =
-    true
-    ; } // a // b")).
-Eval vm_compute in ("<<<M2303>>>" ++ check (runes_of_ascii "options
-{ } options { BodyLength= u16% Header= f64 ; u128 =
-    true
-    ; } // a // b")).
-Eval vm_compute in ("<<<M2248>>>" ++ check (runes_of_ascii "options
-{ } options { BodyLength= u16 =Header f64 ; u128 =
-    true
-    ; } // a // b")).
-Eval vm_compute in ("<<<M3235>>>" ++ check (runes_of_ascii "packet metadata { Logon { A `" ++ [28040; 24687; 31867; 22411]%N ++ runes_of_ascii "` , tag o , } // c
-, zchar len `// not a comment` , }")).
-Eval vm_compute in ("<<<M2949>>>" ++ check (runes_of_ascii "packet A {
-  match k as n {
-    [1, 22, 007, 4, 5, 66, 7, 8, 9] : B,
-    2 : C
-  },
-}")).
-Eval vm_compute in ("<<<M3458>>>" ++ check (runes_of_ascii "packet o { repeat Logon uint8x , } options { asx = zchar[ 3 ]
-// c
-stringy = '\x00' }")).
-Eval vm_compute in ("<<<M1745>>>" ++ check (runes_of_ascii "options { trueish = ""`tick`"" ; string_= """ ++ [233]%N ++ runes_of_ascii "t" ++ [233]%N ++ runes_of_ascii """
-    // c
-    } root
-    packet body {")).
-Eval vm_compute in ("<<<M3401>>>" ++ check (runes_of_ascii "MetaData body { i64
-// c
-pack `it's` , } packet stringy { int16 calculatedFrom , }")).
-Eval vm_compute in ("<<<M2900>>>" ++ check (runes_of_ascii "packet A {
+Eval vm_compute in ("<<<M1305>>>" ++ check (runes_of_ascii "MetaData // c
+body { i64 pack `it's` , } packet stringy { int16 calculatedFrom , }")).
+Eval vm_compute in ("<<<M811>>>" ++ check (runes_of_ascii "packet A {
   match k as n {
     [""a"", ""bb"", ""c c"", ""d"", ""e""] : B
     2 : C
   },
 }")).
-Eval vm_compute in ("<<<M2918>>>" ++ check (runes_of_ascii "packet A {
-  match k as n {
-    [1, 22, ""c c"", 4, 5, ""f""] : B,
-    2 : C
-  },
-}")).
-Eval vm_compute in ("<<<M2910>>>" ++ check (runes_of_ascii "packet A {
-  match k as n {
-    [1, 22, 007, 4, 5, 66] : B,
-    2 : C
-  },
-}")).
-Eval vm_compute in ("<<<M3853>>>" ++ check (runes_of_ascii "packet 
-A
+Eval vm_compute in ("<<<M1161>>>" ++ check (runes_of_ascii "// top
+root
+    // c0
+packet
+    // c1
+pack
+    // c2
 {
-
-Inner
-    {  u8
-	x `x
-`, Deep
-
-{ u8 
-y `x
-` 
-, }	, 
-} , }
+    // c3
+}
+    // c4
 ")).
-Eval vm_compute in ("<<<M3944>>>" ++ check (runes_of_ascii "root packet roots {
-    // " ++ [128512]%N ++ runes_of_ascii " emoji
-    calculatedFrom x_y_z,
-}// a // b")).
-Eval vm_compute in ("<<<M2885>>>" ++ check (runes_of_ascii "packet A {
+Eval vm_compute in ("<<<M800>>>" ++ check (runes_of_ascii "packet A {
+  match k as n {
+    [1, ""bb"", 007, ""d""] : B
+    2 : C
+  },
+}")).
+Eval vm_compute in ("<<<M796>>>" ++ check (runes_of_ascii "packet A {
   match k as n {
     [1, 22, 007, 4] : B
     2 : C
   },
 }")).
-Eval vm_compute in ("<<<M1730>>>" ++ check (runes_of_ascii "options { trueish = ""`tick`"" ; string_= """ ++ [233]%N ++ runes_of_ascii "t" ++ [233]%N ++ runes_of_ascii """
-    // c
-    } root")).
-Eval vm_compute in ("<<<M3541>>>" ++ check (runes_of_ascii "
-
-  root
-    packet P  { hdr
-
-    {
-u8
-
-a
-	,
-}  ,  u8	x, 
+Eval vm_compute in ("<<<M913>>>" ++ check (runes_of_ascii "packet A {
+    B b `a
+b`,
+    B `a
+b`,
+    repeat B bs `a
+b`,
 }")).
-Eval vm_compute in ("<<<M2717>>>" ++ check (runes_of_ascii "'0' `doc` char[ ) string @leftPad , char[] string root @tag(")).
-Eval vm_compute in ("<<<M2816>>>" ++ check (runes_of_ascii "zchar[ f64 char string int32 as false char[ char @rightPad")).
-Eval vm_compute in ("<<<M2709>>>" ++ check (runes_of_ascii "'0' @tag( i64 i32 u8 0 } uint64 char u8 @lengthOf( = char")).
-Eval vm_compute in ("<<<M2793>>>" ++ check (runes_of_ascii "zchar[ 0123456789 = string uint32 @lengthOf( options ;")).
-Eval vm_compute in ("<<<M819>>>" ++ check (runes_of_ascii "MetaData
-    // c
-    Foo{ char[
-00
-    ] Pad ,
-}
+Eval vm_compute in ("<<<M1299>>>" ++ check (runes_of_ascii "packet x { @rightPad ( ) repeat roots Logon `doc` , }
+// c
 ")).
-Eval vm_compute in ("<<<M2584>>>" ++ check (runes_of_ascii "packet A { char[] x @calculatedFrom(""c"") `d`, }")).
-Eval vm_compute in ("<<<M1720>>>" ++ check (runes_of_ascii "options { trueish = ""`tick`"" ; string_= """ ++ [233]%N ++ runes_of_ascii "t" ++ [233]%N ++ runes_of_ascii """")).
-Eval vm_compute in ("<<<M3035>>>" ++ check (runes_of_ascii "MetaData M {
-    u8 x `x
-`,
-    T t `x
-`,
+Eval vm_compute in ("<<<M1297>>>" ++ check (runes_of_ascii "packet x { @rightPad ( ) repeat roots Logon `doc` ,
+// c
 }")).
-Eval vm_compute in ("<<<M945>>>" ++ check (runes_of_ascii "options {  Packet
-=	0 trueish =
-i8
-;	}
+Eval vm_compute in ("<<<M1864>>>" ++ check (runes_of_ascii "MetaData M {
+    u8 x `
+    x`,
+    T t `
+    x`,
+}")).
+Eval vm_compute in ("<<<M177>>>" ++ check (runes_of_ascii "root packet
+repeatCount{ } // trailing space ")).
+Eval vm_compute in ("<<<M1114>>>" ++ check (runes_of_ascii "root packet u128 { chars `it's` , } // c
 ")).
-Eval vm_compute in ("<<<M1357>>>" ++ check (runes_of_ascii "
-packet /// triple
-BodyLength
+Eval vm_compute in ("<<<M966>>>" ++ check (runes_of_ascii "options {
+    a = ""\
+"";
+    b = ""\
+""
+}")).
+Eval vm_compute in ("<<<M1937>>>" ++ check (runes_of_ascii "
+packet A 
 {
-    }
-")).
-Eval vm_compute in ("<<<M3159>>>" ++ check (runes_of_ascii "MetaData M {
-}// c
-MetaData N {
-}// d")).
-Eval vm_compute in ("<<<M1506>>>" ++ check (runes_of_ascii "packet
-//	t
-// trailing space 
-_x {")).
-Eval vm_compute in ("<<<M3754>>>" ++ check (runes_of_ascii "// " ++ [27880; 37322]%N ++ runes_of_ascii "
-packet Header {
-}
-// " ++ [128512]%N ++ runes_of_ascii " emoji")).
-Eval vm_compute in ("<<<M2811>>>" ++ check (runes_of_ascii "@lengthOf( @tag( ( `a\` i16 ( as")).
-Eval vm_compute in ("<<<M2118>>>" ++ check (runes_of_ascii "options{
-_x
-= true
-} options
-{")).
-Eval vm_compute in ("<<<M1247>>>" ++ check (runes_of_ascii "options { lengthOf	=7;
-    }
-")).
-Eval vm_compute in ("<<<M2591>>>" ++ check (runes_of_ascii "packet A { x @lengthOf(), }")).
-Eval vm_compute in ("<<<M2818>>>" ++ check (runes_of_ascii "ykT4r3#5kWpIpr8~:{UG:h?pLl")).
-Eval vm_compute in ("<<<M4445>>>" ++ check (runes_of_ascii "// c 
-	packet
-	A
-    {}
-")).
-Eval vm_compute in ("<<<M4332>>>" ++ check (runes_of_ascii "
-packet
-	A {
-	}	// c 
-")).
-Eval vm_compute in ("<<<M4002>>>" ++ check (runes_of_ascii "packet BodyLength {
+    u8
+	x `a
+b` ,
 }")).
-Eval vm_compute in ("<<<M1073>>>" ++ check (runes_of_ascii "packet msg_type {}
+Eval vm_compute in ("<<<M998>>>" ++ check (runes_of_ascii "packet A {
+ u8 x `d" ++ [8192]%N ++ runes_of_ascii "`, // c" ++ [8192]%N ++ runes_of_ascii "
+}")).
+Eval vm_compute in ("<<<M948>>>" ++ check (runes_of_ascii "packet A {
+    u8 x `
+x`,
+}")).
+Eval vm_compute in ("<<<M51>>>" ++ check (runes_of_ascii "packet BodyLength {}
 ")).
-Eval vm_compute in ("<<<M1267>>>" ++ check (runes_of_ascii "root packet a1 { }")).
-Eval vm_compute in ("<<<M3120>>>" ++ check (runes_of_ascii "packet A {
+Eval vm_compute in ("<<<M2005>>>" ++ check (runes_of_ascii "packet options1 {
+}")).
+Eval vm_compute in ("<<<M1041>>>" ++ check (runes_of_ascii "packet A {
 }
-// c" ++ [12]%N)).
-Eval vm_compute in ("<<<M3073>>>" ++ check (runes_of_ascii "packet A {
-}// c" ++ [133]%N)).
-Eval vm_compute in ("<<<M4048>>>" ++ check (runes_of_ascii "  options {  }
+// c" ++ [8203]%N)).
+Eval vm_compute in ("<<<M296>>>" ++ check (runes_of_ascii "packet f32a {  }")).
+Eval vm_compute in ("<<<M1912>>>" ++ check (runes_of_ascii "// " ++ [27880; 37322]%N ++ runes_of_ascii "
+")).
+Eval vm_compute in ("<<<M109>>>" ++ check (runes_of_ascii "
+
 
 ")).
-Eval vm_compute in ("<<<M2671>>>" ++ check (runes_of_ascii "options A { }")).
-Eval vm_compute in ("<<<M3820>>>" ++ check (runes_of_ascii "options {
-}")).
-Eval vm_compute in ("<<<M2777>>>" ++ check (runes_of_ascii ", } char")).
-Eval vm_compute in ("<<<M2469>>>" ++ check (runes_of_ascii "Packet")).
-Eval vm_compute in ("<<<M2522>>>" ++ check (runes_of_ascii "`a
-b`")).
-Eval vm_compute in ("<<<M2491>>>" ++ check (runes_of_ascii "@tag")).
-Eval vm_compute in ("<<<M2518>>>" ++ check (runes_of_ascii """`""")).
-Eval vm_compute in ("<<<M2498>>>" ++ check (runes_of_ascii "//")).
-Eval vm_compute in ("<<<M2687>>>" ++ check ([65279]%N)).
